@@ -71,7 +71,7 @@ Qed.
 (* ---- python side *)
 Lemma plookup_bind : forall n m v e, plookup n (bind m v e) = if text_eqb n m then Some v else plookup n e.
 Proof.
-  induction e as [|[k w] e IH]; cbn.
+  unfold plookup. induction e as [|[k w] e IH]; cbn.
   - destruct (text_eqb n m); reflexivity.
   - destruct (text_eqb m k) eqn:Emk; cbn.
     + apply text_eqb_eq in Emk. subst k. destruct (text_eqb n m); reflexivity.
@@ -163,8 +163,10 @@ Proof. intros c n Q m o' H. auto. Qed.
 Section Sim.
   Variable clean : text -> text.
   Variable vals : bool.          (* relate stored literals with bound values ... *)
-  Variable strict : bool.        (* ... which needs the strict subset *)
-  Hypothesis Hstrict : vals = true -> strict = true.
+  Variable g : guards.
+  Hypothesis Hshadow : g_shadow g = true.                      (* no class variable shadowing an inherited method *)
+  Hypothesis Hunpack : vals = true -> g_unpack g = true.       (* ... which needs the unpacking guard *)
+  Variable ANN : list name.      (* the names the program annotates explicitly (x: T ..., self.x: T ...) *)
   Notation agree_ns := (agree_ns clean vals).
   Notation agree_obj := (agree_obj clean vals).
   Notation val_rel := C03Rel.val_rel.
@@ -213,9 +215,9 @@ Section Sim.
   Qed.
 
   (* only Python binds n, as an auxiliary name *)
-  Lemma inv_aux : forall sc c e n, agree_ns sc c e -> pdef n e = false -> agree_ns sc c (bind n VAux e).
+  Lemma inv_aux : forall sc c e n i, agree_ns sc c e -> pdef n e = false -> agree_ns sc c (bind n (VAux i) e).
   Proof.
-    intros sc c e n H Hn. inversion H as [? ? ? R1 R2 R3 R4]; subst.
+    intros sc c e n i H Hn. inversion H as [? ? ? R1 R2 R3 R4]; subst.
     constructor; auto.
     - intros m Hm. rewrite pdef_bind in Hm. destruct (text_eqb m n); [discriminate|auto].
     - intros m o Hm. rewrite pdef_bind. destruct (text_eqb m n) eqn:E.
@@ -226,10 +228,12 @@ Section Sim.
       + eauto.
   Qed.
 
+  Definition not_fun_class (v : option pyval) : Prop :=
+    match v with Some (VFun _ _ _) | Some (VClass _ _ _ _ _) => False | _ => True end.
+
   (* what the documentation has for a name Python has bound to a value that is not a function or class (or not at all) *)
   Lemma doc_entry_of_data : forall sc c e n o,
-      agree_ns sc c e -> lookup n c = Some o ->
-      match plookup n e with Some (VFun _ _ _) | Some (VClass _ _ _) => False | _ => True end ->
+      agree_ns sc c e -> lookup n c = Some o -> not_fun_class (plookup n e) ->
       exists k d a v, o = OAttr k d a v /\ k <> KProperty.
   Proof.
     intros sc c e n o H Hl Hp. inversion H as [? ? ? R1 R2 R3 R4]; subst.
@@ -241,22 +245,50 @@ Section Sim.
       exists KInstanceVar, d, a, v. split; [reflexivity|discriminate].
   Qed.
 
-  (* ================================================================ documentation-only invariant (for the shadow guard) *)
-  Variable DN : list name.          (* the names bound by def/class statements of the program *)
+  Lemma old_val_rel : forall sc c e n k d a v,
+      agree_ns sc c e -> lookup n c = Some (OAttr k d a v) -> not_fun_class (plookup n e) -> vals = true ->
+      k = KInstanceVar \/ exists w, plookup n e = Some (VData w) /\ forall l, v = Some (AvLit l) -> w = Some l.
+  Proof.
+    intros sc c e n k d a v H Hl Hnf Hv. inversion H as [? ? ? R1 R2 R3 R4]; subst.
+    destruct (R3 _ _ Hl) as [Hd|[_ Hi]].
+    - unfold pdef in Hd. destruct (plookup n e) as [v0|] eqn:E; [|discriminate].
+      assert (Ha : is_aux v0 = false) by (destruct (is_aux v0); [discriminate|reflexivity]).
+      specialize (R4 _ _ _ Hl E Ha). inversion R4; subst; cbn in Hnf; try contradiction.
+      match goal with Hr : _ -> C03Rel.val_rel _ _ _ |- _ => destruct (Hr ltac:(first [assumption|reflexivity])) as [?|Hr'] end; eauto.
+    - destruct k; try discriminate. auto.
+  Qed.
 
-  Definition nonattr_in (c : contents_t) : Prop := forall n o, In (n, o) c -> is_attr o = false -> In n DN.
-  Definition inh_ok (ih : list (name * summary)) : Prop := forall n, In (n, SNonAttr) ih -> In n DN.
-  Definition good_obj (o : obj) : Prop :=
-    match o with OClass _ _ c _ ih => nonattr_in c /\ inh_ok ih | _ => True end.
-  Definition good_c (c : contents_t) : Prop := nonattr_in c /\ forall n o, In (n, o) c -> good_obj o.
-  Definition good_chain (ch : list (contents_t * imps_t)) : Prop :=
-    Forall (fun p => forall n o, In (n, o) (fst p) -> good_obj o) ch.
+  (* ================================================================ documentation-only invariant: annotations *)
+  (* finished objects: an annotation is explicit (the name is annotated somewhere) or the one inferred from the value;
+     objects of a scope still being walked: no annotation yet unless explicit *)
+  Fixpoint fin_obj (n : name) (o : obj) : Prop :=
+    match o with
+    | OAttr _ _ an va => In n ANN \/ an = match va with Some v => infer_value v | None => None end
+    | OClass _ _ c _ _ => (fix all (l : contents_t) : Prop := match l with [] => True | p :: r => fin_obj (fst p) (snd p) /\ all r end) c
+    | OFun _ _ _ => True
+    end.
+  Definition fin_c (c : contents_t) : Prop := forall n o, In (n, o) c -> fin_obj n o.
+
+  Lemma fin_obj_class : forall n x d c oo ih, fin_obj n (OClass x d c oo ih) <-> fin_c c.
+  Proof.
+    intros n x d c oo ih. cbn. unfold fin_c. induction c as [|[m o] c IH]; cbn.
+    - split; [intros _ ? ? []|auto].
+    - rewrite IH. split.
+      + intros [H1 H2] k o' [Hk|Hk]; [inversion Hk; subst; exact H1|auto].
+      + intro H. split; [apply H; auto|intros; apply H; auto].
+  Qed.
+
+  Definition wip_obj (n : name) (o : obj) : Prop :=
+    match o with OAttr _ _ an _ => an = None \/ In n ANN | _ => fin_obj n o end.
+  Definition good_c (c : contents_t) : Prop := forall n o, In (n, o) c -> wip_obj n o.
+
+  Definition blank (o : obj) : Prop := exists k, o = OAttr k None None None.
 
   Definition upd (c : contents_t) (n : name) (o : obj) (c' : contents_t) : Prop :=
-    upd_fun c n o c' /\ upd_in c n (fun o' => o' = o \/ is_attr o' = true) c'.
+    upd_fun c n o c' /\ upd_in c n (fun o' => o' = o \/ blank o') c'.
 
-  Lemma upd_trans_attr : forall c n o1 c1 o2 c2,
-      upd c n o1 c1 -> is_attr o1 = true -> upd c1 n o2 c2 -> upd c n o2 c2.
+  Lemma upd_trans_blank : forall c n o1 c1 o2 c2,
+      upd c n o1 c1 -> blank o1 -> upd c1 n o2 c2 -> upd c n o2 c2.
   Proof.
     intros c n o1 c1 o2 c2 [F1 I1] Ha [F2 I2]. split.
     - eapply upd_fun_trans; eauto.
@@ -278,102 +310,167 @@ Section Sim.
     eapply upd_in_weaken; [exact I|]. cbn. intros; auto.
   Qed.
 
-  Lemma good_upd : forall c n o c',
-      good_c c -> upd c n o c' -> good_obj o -> (is_attr o = false -> In n DN) -> good_c c'.
+  Lemma good_upd : forall c n o c', good_c c -> upd c n o c' -> wip_obj n o -> good_c c'.
   Proof.
-    intros c n o c' [G1 G2] [_ I] Go Hn. split.
-    - intros m o' Hin Ha. destruct (I _ _ Hin) as [[? [?|?]]|?]; subst; auto; try congruence. eapply G1; eauto.
-    - intros m o' Hin. destruct (I _ _ Hin) as [[? [?|Hat]]|?]; subst; auto.
-      + destruct o'; try discriminate. exact Logic.I.
-      + eapply G2; eauto.
+    intros c n o c' G [_ I] Go m o' Hin. destruct (I _ _ Hin) as [[? [?|[k Hb]]]|?]; subst; auto.
+    cbn. auto.
   Qed.
 
-  Lemma attr_good : forall o, is_attr o = true -> good_obj o.
-  Proof. destruct o; cbn; intros; try discriminate; exact I. Qed.
-
-  (* a scope state: documented contents agree with Python's namespace, are well-formed for the guard, and
-     builder.currentAttr never points at a property (so a string statement cannot replace a property's docstring) *)
+  (* ================================================================ the state of a scope being walked *)
+  (* builder.currentAttr never points at a property *)
   Definition cur_ok (s : st) : Prop :=
     forall n, cur s = Some n -> forall d a v, lookup n (contents s) <> Some (OAttr KProperty d a v).
+  (* the import/alias map only names Python has bound, and knows what Python's imported classes / modules are *)
+  Definition imps_rel (im : imps_t) (e : env) : Prop :=
+    (forall n, lookup n im <> None -> plookup n e <> None) /\
+    (forall n i, plookup n e = Some (VAux i) -> i <> IOther -> lookup n im = Some (impval_of i)).
 
-  Definition St (sc : scope) (s : st) (e : env) : Prop :=
-    agree_ns sc (contents s) e /\ good_c (contents s) /\ cur_ok s.
+  Record St (sc : scope) (ivs : list name) (s : st) (e : env) : Prop := mkStP {
+    st_agree : agree_ns sc (contents s) e;
+    st_good : good_c (contents s);
+    st_cur : cur_ok s;
+    st_iv : iv_ok ivs (contents s) e;
+    st_imps : imps_rel (imps s) e }.
 
-  Lemma St_nodup : forall sc s e, St sc s e -> NoDup (keys (contents s)).
-  Proof. intros sc s e [H _]. inversion H; auto. Qed.
+  Lemma St_nodup : forall sc ivs s e, St sc ivs s e -> NoDup (keys (contents s)).
+  Proof. intros sc ivs s e H. destruct H as [H _ _ _ _]. inversion H; auto. Qed.
 
   Lemma cur_ok_none : forall s, cur s = None -> cur_ok s.
   Proof. intros s H n Hn. congruence. Qed.
 
-  Lemma St_set_cur_none : forall sc s e, St sc s e -> St sc (set_cur None s) e.
-  Proof. intros sc s e [HA [HG _]]. split; [exact HA|split; [exact HG|]]. apply cur_ok_none. reflexivity. Qed.
+  Lemma cur_ok_some : forall s n o, cur s = Some n -> lookup n (contents s) = Some o ->
+                                    (forall d a v, o <> OAttr KProperty d a v) -> cur_ok s.
+  Proof. intros s n o Hc E Ho m Hm d a v. rewrite Hc in Hm. inversion Hm; subst m. rewrite E. intro H. inversion H. eapply Ho; eauto. Qed.
 
-  Lemma St_set_imp : forall sc s e n x, St sc s e -> St sc (set_imp n x s) e.
-  Proof. intros. exact H. Qed.
+  Lemma imps_rel_bind : forall im e n v, imps_rel im e -> is_aux v = false -> imps_rel im (bind n v e).
+  Proof.
+    intros im e n v [H1 H2] Hv. split.
+    - intros m Hm. rewrite plookup_bind. destruct (text_eqb m n); [discriminate|auto].
+    - intros m i Hp Hi. rewrite plookup_bind in Hp. destruct (text_eqb m n); [inversion Hp; subst; discriminate|auto].
+  Qed.
+
+  (* both sides (re)bind n *)
+  Lemma St_point_g : forall sc ivs s e n o v s',
+      St sc ivs s e -> upd_fun (contents s) n o (contents s') -> good_c (contents s') -> imps s' = imps s -> cur_ok s' ->
+      agree_obj sc o v -> is_aux v = false -> St sc ivs s' (bind n v e).
+  Proof.
+    intros sc ivs s e n o v s' [HA HG HC HI HM] HU Hg Him Hcur Ho Hv. constructor; auto.
+    - eapply inv_point; eauto.
+    - intros m o0 Hm. rewrite (proj2 HU) in Hm. rewrite pdef_bind. destruct (text_eqb m n).
+      + left. rewrite Hv. reflexivity.
+      + eauto.
+    - rewrite Him. apply imps_rel_bind; auto.
+  Qed.
+
+  Lemma St_point : forall sc ivs s e n o v s',
+      St sc ivs s e -> upd (contents s) n o (contents s') -> imps s' = imps s -> cur_ok s' ->
+      agree_obj sc o v -> is_aux v = false -> wip_obj n o -> St sc ivs s' (bind n v e).
+  Proof.
+    intros sc ivs s e n o v s' HS HU Him Hcur Ho Hv Hw.
+    eapply St_point_g; eauto. exact (proj1 HU). eapply good_upd; eauto. exact (st_good _ _ _ _ HS).
+  Qed.
+
+  (* only the documentation side changes the entry n *)
+  Lemma St_doc : forall sc ivs s e n o s',
+      St sc ivs s e -> upd (contents s) n o (contents s') -> imps s' = imps s -> cur_ok s' ->
+      (forall v, plookup n e = Some v -> is_aux v = false -> agree_obj sc o v) ->
+      (pdef n e = true \/ (sc = ScClass /\ is_ivar_obj o = true /\ In n ivs)) -> wip_obj n o ->
+      St sc ivs s' e.
+  Proof.
+    intros sc ivs s e n o s' [HA HG HC HI HM] HU Him Hcur Ho Hd Hw. constructor; auto.
+    - eapply inv_doc; eauto. exact (proj1 HU). destruct Hd as [?|[? [? ?]]]; auto.
+    - eapply good_upd; eauto.
+    - intros m o0 Hm. rewrite (proj2 (proj1 HU)) in Hm. destruct (text_eqb m n) eqn:E.
+      + apply text_eqb_eq in E. subst. destruct Hd as [?|[_ [_ ?]]]; auto.
+      + eauto.
+    - rewrite Him. exact HM.
+  Qed.
+
+  (* a state that differs only in cur / imps-preserving fields *)
+  Lemma St_same : forall sc ivs s e s',
+      St sc ivs s e -> contents s' = contents s -> imps s' = imps s -> cur_ok s' -> St sc ivs s' e.
+  Proof. intros sc ivs s e s' [HA HG HC HI HM] Hc Him Hcur. constructor; auto; try rewrite Hc; auto. rewrite Him. auto. Qed.
+
+  Lemma St_set_cur_none : forall sc ivs s e, St sc ivs s e -> St sc ivs (set_cur None s) e.
+  Proof. intros. eapply St_same; eauto. apply cur_ok_none. reflexivity. Qed.
+
+  Lemma imps_add_obj : forall n o s, imps (add_obj n o s) = imps s.
+  Proof. intros. unfold add_obj. destruct (lookup n (contents s)); reflexivity. Qed.
+
+  Lemma imps_upd_attr : forall n f s, imps (upd_attr n f s) = imps s.
+  Proof. intros. unfold upd_attr. destruct (lookup n (contents s)) as [[| |]|]; reflexivity. Qed.
+
+  Lemma imps_upd_attr_raw : forall n f s c, imps (set_cur c (upd_attr n f s)) = imps s.
+  Proof. intros. cbn. apply imps_upd_attr. Qed.
+
+  (* facts about an existing entry used again and again *)
+  Lemma entry_side : forall sc ivs s e n o,
+      St sc ivs s e -> lookup n (contents s) = Some o ->
+      pdef n e = true \/ (sc = ScClass /\ is_ivar_obj o = true /\ In n ivs).
+  Proof.
+    intros sc ivs s e n o [HA _ _ HI _] E. inversion HA as [? ? ? R1 R2 R3 R4]; subst.
+    destruct (R3 _ _ E) as [?|[? ?]]; auto. destruct (HI _ _ E); auto.
+  Qed.
 
   (* ---- visit_Expr on a string: only the docstring of an Attribute changes *)
-  Lemma St_attach_doc : forall sc s e d, St sc s e -> St sc (attach_doc clean d s) e.
+  Lemma St_attach_doc : forall sc ivs s e d, St sc ivs s e -> St sc ivs (attach_doc clean d s) e.
   Proof.
-    intros sc s e d HS. unfold attach_doc. destruct (cur s) as [n|] eqn:Ec; [|exact HS].
+    intros sc ivs s e d HS. unfold attach_doc. destruct (cur s) as [n|] eqn:Ec; [|exact HS].
     destruct (lookup n (contents s)) as [[| |k d0 a v]|] eqn:E;
       try (rewrite upd_attr_noattr; [apply St_set_cur_none; exact HS | intros; congruence]).
-    pose proof (St_nodup _ _ _ HS) as ND. destruct HS as [HA [HG HC]].
-    assert (Hk : k <> KProperty) by (intro Hk; subst k; exact (HC n Ec _ _ _ E)).
+    pose proof (St_nodup _ _ _ _ HS) as ND.
+    assert (Hk : k <> KProperty) by (intro Hk; subst k; exact (st_cur _ _ _ _ HS n Ec _ _ _ E)).
     pose proof (upd_attr_upd' n (fun k _ a v => OAttr k (Some (clean d)) a v) s k d0 a v ND E) as HU.
-    split; [|split].
-    - eapply inv_doc; [exact HA|exact (proj1 HU)| |].
-      + intros v0 Hp Ha. inversion HA as [? ? ? R1 R2 R3 R4]; subst.
-        specialize (R4 _ _ _ E Hp Ha). inversion R4; subst; try congruence; constructor; auto.
-      + inversion HA as [? ? ? R1 R2 R3 R4]; subst. destruct (R3 _ _ E) as [?|[? Hi]]; auto.
-    - eapply good_upd; [exact HG|exact HU|exact Logic.I|cbn; discriminate].
-    - apply cur_ok_none. reflexivity.
+    eapply St_doc; [exact HS|exact HU|apply imps_upd_attr_raw|apply cur_ok_none; reflexivity| | |].
+    - intros v0 Hp Ha. pose proof (st_agree _ _ _ _ HS) as HA. inversion HA as [? ? ? R1 R2 R3 R4]; subst.
+      specialize (R4 _ _ _ E Hp Ha). inversion R4; subst; try congruence; constructor; auto.
+    - destruct (entry_side _ _ _ _ _ _ HS E) as [?|[? [? ?]]]; auto.
+    - pose proof (st_good _ _ _ _ HS n _ (lookup_In _ _ _ E)) as Hw. exact Hw.
   Qed.
 
   (* ---- _handleInstanceVar *)
   Lemma maybe_attribute_present : forall inh c n o, lookup n c = Some o -> maybe_attribute inh c n = is_attr o.
   Proof. intros. unfold maybe_attribute. rewrite H. reflexivity. Qed.
 
-  (* cur := Some n is fine when the entry written at n is not a property *)
-  Lemma cur_ok_some : forall s n o, lookup n (contents s) = Some o -> (forall d a v, o <> OAttr KProperty d a v) ->
-                                    cur_ok (set_cur (Some n) s).
-  Proof. intros s n o E Ho m Hm d a v. cbn in Hm. inversion Hm; subst m. cbn. rewrite E. intro H. inversion H. eapply Ho; eauto. Qed.
+  Lemma set_ann_wip : forall n a ann, (a = None \/ In n ANN) -> (ann <> None -> In n ANN) -> set_ann a ann = None \/ In n ANN.
+  Proof. intros n a ann Ha Hann. unfold set_ann. destruct ann; auto. right. apply Hann. discriminate. Qed.
 
-  Lemma St_hiv : forall inh a ann expr s e,
-      St ScClass s e -> St ScClass (handle_instance_var true inh a ann expr s) e.
+  Lemma St_hiv : forall ivs inh a ann expr s e,
+      St ScClass ivs s e -> In a ivs -> (ann <> None -> In a ANN) ->
+      St ScClass ivs (handle_instance_var true inh a ann expr s) e.
   Proof.
-    intros inh a ann expr s e HS. unfold handle_instance_var. cbn [negb].
+    intros ivs inh a ann expr s e HS Hiv Hann. unfold handle_instance_var. cbn [negb].
     destruct (maybe_attribute inh (contents s) a) eqn:Em; cbn [negb]; [|exact HS].
-    pose proof (St_nodup _ _ _ HS) as ND. destruct HS as [HA [HG HC]].
-    inversion HA as [? ? ? R1 R2 R3 R4]; subst.
+    pose proof (St_nodup _ _ _ _ HS) as ND.
+    pose proof (st_agree _ _ _ _ HS) as HA. inversion HA as [? ? ? R1 R2 R3 R4]; subst.
     set (f := fun (_ : akind) d a0 v => OAttr KInstanceVar d (set_ann a0 ann) (store_value v expr false)).
     destruct (lookup a (contents s)) as [o|] eqn:E.
     - rewrite (maybe_attribute_present _ _ _ _ E) in Em. destruct o as [| |k d an v]; try discriminate.
-      assert (Hres : k <> KProperty ->
-                     St ScClass (set_cur (Some a) (upd_attr a f s)) e).
-      { intro Hk. pose proof (upd_attr_upd' a f s k d an v ND E) as HU. split; [|split].
-        + eapply inv_doc; [exact HA|exact (proj1 HU)| |right; split; reflexivity].
-          intros v0 Hv0 Ha. specialize (R4 _ _ _ E Hv0 Ha). inversion R4; subst; [congruence|].
+      assert (Hres : k <> KProperty -> St ScClass ivs (set_cur (Some a) (upd_attr a f s)) e).
+      { intro Hk. pose proof (upd_attr_upd' a f s k d an v ND E) as HU.
+        eapply St_doc; [exact HS|exact HU|apply imps_upd_attr_raw| | |right; repeat split; auto|].
+        + eapply cur_ok_some; [reflexivity|cbn; rewrite (proj2 (proj1 HU)), text_eqb_refl; reflexivity|]. subst f. cbn. intros; discriminate.
+        + intros v0 Hv0 Ha. specialize (R4 _ _ _ E Hv0 Ha). inversion R4; subst; [congruence|].
           constructor; [discriminate|intros _; left; reflexivity].
-        + eapply good_upd; [exact HG|exact HU|exact Logic.I|cbn; discriminate].
-        + eapply cur_ok_some; [cbn; rewrite (proj2 (proj1 HU)), text_eqb_refl; reflexivity|]. subst f. cbn. intros; discriminate. }
-      destruct k; try (apply Hres; discriminate). split; [exact HA|split; [exact HG|exact HC]].
-    - set (blank := OAttr KInstanceVar None None None).
-      pose proof (add_obj_upd' a blank s ND) as HU1.
-      assert (E1 : lookup a (contents (add_obj a blank s)) = Some blank).
+        + subst f. cbn. apply set_ann_wip; auto. exact (st_good _ _ _ _ HS a _ (lookup_In _ _ _ E)). }
+      destruct k; try (apply Hres; discriminate). exact HS.
+    - set (blk := OAttr KInstanceVar None None None).
+      pose proof (add_obj_upd' a blk s ND) as HU1.
+      assert (E1 : lookup a (contents (add_obj a blk s)) = Some blk).
       { rewrite (proj2 (proj1 HU1)). rewrite text_eqb_refl. reflexivity. }
-      pose proof (upd_attr_upd' a f (add_obj a blank s) _ _ _ _ (proj1 (proj1 HU1)) E1) as HU2.
-      pose proof (upd_trans_attr _ _ _ _ _ _ HU1 eq_refl HU2) as HU. split; [|split].
-      + eapply inv_doc; [exact HA|exact (proj1 HU)| |right; split; reflexivity].
-        intros v0 Hv0 Ha. exfalso. apply (R2 a); [|exact E]. unfold pdef. rewrite Hv0. rewrite Ha. reflexivity.
-      + eapply good_upd; [exact HG|exact HU|exact Logic.I|cbn; discriminate].
-      + eapply cur_ok_some; [cbn; rewrite (proj2 (proj1 HU)), text_eqb_refl; reflexivity|]. subst f blank. cbn. intros; discriminate.
+      pose proof (upd_attr_upd' a f (add_obj a blk s) _ _ _ _ (proj1 (proj1 HU1)) E1) as HU2.
+      pose proof (upd_trans_blank _ _ _ _ _ _ HU1 ltac:(eexists; reflexivity) HU2) as HU.
+      eapply St_doc; [exact HS|exact HU|cbn; rewrite imps_upd_attr; apply imps_add_obj| | |right; repeat split; auto|].
+      + eapply cur_ok_some; [reflexivity|cbn; rewrite (proj2 (proj1 HU)), text_eqb_refl; reflexivity|]. subst f blk. cbn. intros; discriminate.
+      + intros v0 Hv0 Ha. exfalso. apply (R2 a); [|exact E]. unfold pdef. rewrite Hv0. rewrite Ha. reflexivity.
+      + subst f blk. cbn. apply set_ann_wip; auto.
   Qed.
 
   (* ---- nested induction on statements *)
   Section StmtInd.
     Variable P : stmt -> Prop.
     Hypothesis HDef : forall nm ds a body, Forall P body -> P (Def nm ds a body).
-    Hypothesis HClass : forall nm bs body, Forall P body -> P (Class nm bs body).
+    Hypothesis HClass : forall nm bs cds body, Forall P body -> P (Class nm bs cds body).
     Hypothesis HAssign : forall ts r, P (Assign ts r).
     Hypothesis HAnn : forall t a r, P (AnnAssign t a r).
     Hypothesis HAug : forall t r, P (AugAssign t r).
@@ -391,7 +488,7 @@ Section Sim.
                    match l with [] => Forall_nil P | y :: r => Forall_cons y (stmt_ind' y) (all r) end in
       match x with
       | Def nm ds a body => HDef nm ds a body (all body)
-      | Class nm bs body => HClass nm bs body (all body)
+      | Class nm bs cds body => HClass nm bs cds body (all body)
       | Assign ts r => HAssign ts r
       | AnnAssign t a r => HAnn t a r
       | AugAssign t r => HAug t r
@@ -413,56 +510,106 @@ Section Sim.
     intros Q f body HF. induction HF as [|y body Hy _ IH]; cbn; intros s Hs; auto.
   Qed.
 
+
   (* ---- walking a function body: only instance variables and their docstrings *)
-  Lemma fwalk_suite : forall sc inc inh e body,
-      Forall (fun x => forall s, St sc s e -> St sc (fwalk_stmt clean inc inh x s) e) body ->
-      forall s, St sc s e -> St sc (fold_left (fun s y => fwalk_stmt clean inc inh y s) body s) e.
+  (* the names a statement annotates explicitly, anywhere inside it *)
+  Fixpoint ann_names (x : stmt) : list name :=
+    let tn := fun t => match t with TName n => [n] | TSelf a => [a] | TTuple _ => [] end in
+    match x with
+    | Def _ _ _ body => flat_map ann_names body
+    | Class _ _ _ body => flat_map ann_names body
+    | AnnAssign t _ _ => tn t
+    | If _ b o => flat_map ann_names b ++ flat_map ann_names o
+    | Try b h o f => flat_map ann_names b ++ flat_map ann_names h ++ flat_map ann_names o ++ flat_map ann_names f
+    | With b => flat_map ann_names b
+    | For _ b o => flat_map ann_names b ++ flat_map ann_names o
+    | While b o => flat_map ann_names b ++ flat_map ann_names o
+    | _ => []
+    end.
+
+  (* what walking a method body needs to know about it: its self targets are among ivs, its annotated names in ANN *)
+  Definition fw_ok (ivs : list name) (inc : bool) (x : stmt) : Prop :=
+    (inc = true -> incl (method_ivars x) ivs) /\ incl (ann_names x) ANN.
+
+  Lemma fw_ok_suite : forall ivs inc (body : list stmt),
+      (inc = true -> incl (flat_map method_ivars body) ivs) -> incl (flat_map ann_names body) ANN -> Forall (fw_ok ivs inc) body.
   Proof.
-    intros sc inc inh e body HF. apply (fold_preserves (fun s => St sc s e) (fwalk_stmt clean inc inh)). exact HF.
+    intros ivs inc body H1 H2. apply Forall_forall. intros y Hy. split; [intros Hi a Ha; apply (H1 Hi)|intros a Ha; apply H2]; apply in_flat_map; eauto.
   Qed.
 
-  Lemma fwalk_St : forall x sc inc inh e s,
-      (inc = true -> sc = ScClass) -> St sc s e -> St sc (fwalk_stmt clean inc inh x s) e.
+  Lemma fwalk_suite : forall sc ivs inc inh e body,
+      Forall (fun x => forall s, fw_ok ivs inc x -> St sc ivs s e -> St sc ivs (fwalk_stmt clean inc inh x s) e) body ->
+      Forall (fw_ok ivs inc) body ->
+      forall s, St sc ivs s e -> St sc ivs (fold_left (fun s y => fwalk_stmt clean inc inh y s) body s) e.
   Proof.
-    intro x. induction x as [nm ds a body IH|nm bs body IH|ts r|t an r|t r|d|t b o IHb IHo|b h o f IHb IHh IHo IHf|b IHb|t b o IHb IHo|b o IHb IHo|ns|]
-      using stmt_ind'; intros sc inc inh e s Hok HS; cbn [fwalk_stmt]; auto.
+    intros sc ivs inc inh e body HF HO. apply (fold_preserves (fun s => St sc ivs s e) (fwalk_stmt clean inc inh)).
+    apply Forall_forall. intros y Hy s Hs. rewrite Forall_forall in HF, HO. apply HF; auto.
+  Qed.
+
+  Lemma fwalk_St : forall x sc ivs inc inh e s,
+      (inc = true -> sc = ScClass) -> fw_ok ivs inc x -> St sc ivs s e -> St sc ivs (fwalk_stmt clean inc inh x s) e.
+  Proof.
+    intro x. induction x as [nm ds a body IH|nm bs cds body IH|ts r|t an r|t r|d|t b o IHb IHo|b h o f IHb IHh IHo IHf|b IHb|t b o IHb IHo|b o IHb IHo|ns|]
+      using stmt_ind'; intros sc ivs inc inh e s Hok [Hself Hann] HS; cbn [fwalk_stmt]; auto.
     - (* Assign *)
-      revert s HS. induction ts as [|t ts IHts]; cbn; intros s HS; auto.
-      apply IHts. destruct t as [n|ns|a0]; auto.
+      cbn [method_ivars] in Hself. clear Hann. revert s HS. induction ts as [|t ts IHts]; cbn; intros s HS; auto.
+      apply IHts; [intros Hi a0 Ha0; apply (Hself Hi); cbn; apply in_or_app; auto|].
+      destruct t as [n|ns|a0]; auto.
       destruct inc; [|exact HS]. rewrite (Hok eq_refl) in *. apply St_hiv; auto.
+      + apply (Hself eq_refl). cbn. auto.
+      + intro Hc. contradiction.
     - (* AnnAssign *)
       destruct t as [n|ns|a0]; auto.
       destruct inc; [|exact HS]. rewrite (Hok eq_refl) in *. apply St_hiv; auto.
+      + apply (Hself eq_refl). cbn. auto.
+      + intros _. apply Hann. cbn. auto.
     - (* ExprStr *) apply St_attach_doc. exact HS.
     - (* If *)
-      destruct t; auto; (eapply fwalk_suite; [eapply Forall_impl; [|exact IHb]; cbn; intros; eauto|exact HS]).
-    - eapply fwalk_suite; [eapply Forall_impl; [|exact IHb]; cbn; intros; eauto|exact HS].
-    - eapply fwalk_suite; [eapply Forall_impl; [|exact IHb]; cbn; intros; eauto|exact HS].
-    - eapply fwalk_suite; [eapply Forall_impl; [|exact IHb]; cbn; intros; eauto|exact HS].
-    - eapply fwalk_suite; [eapply Forall_impl; [|exact IHb]; cbn; intros; eauto|exact HS].
+      cbn [ann_names] in *.
+      destruct t; auto; cbn [method_ivars] in Hself;
+        (eapply fwalk_suite; [eapply Forall_impl; [|exact IHb]; cbn; intros; eauto| |exact HS]);
+        apply fw_ok_suite; auto; intros a0 Ha0; apply Hann; apply in_or_app; auto.
+    - cbn [method_ivars ann_names] in *.
+      eapply fwalk_suite; [eapply Forall_impl; [|exact IHb]; cbn; intros; eauto| |exact HS].
+      apply fw_ok_suite; auto. intros a0 Ha0; apply Hann; apply in_or_app; auto.
+    - cbn [method_ivars ann_names] in *.
+      eapply fwalk_suite; [eapply Forall_impl; [|exact IHb]; cbn; intros; eauto| |exact HS].
+      apply fw_ok_suite; auto.
+    - cbn [method_ivars ann_names] in *.
+      eapply fwalk_suite; [eapply Forall_impl; [|exact IHb]; cbn; intros; eauto| |exact HS].
+      apply fw_ok_suite; auto. intros a0 Ha0; apply Hann; apply in_or_app; auto.
+    - cbn [method_ivars ann_names] in *.
+      eapply fwalk_suite; [eapply Forall_impl; [|exact IHb]; cbn; intros; eauto| |exact HS].
+      apply fw_ok_suite; auto. intros a0 Ha0; apply Hann; apply in_or_app; auto.
   Qed.
 
   (* ---- a suite that binds nothing leaves the namespace as it is (only attribute docstrings may change) *)
-  Lemma nb_suite : forall sc flow inh outer e body,
-      Forall (fun x => nonbinding x = true -> forall sc flow inh outer s e, St sc s e -> St sc (walk_stmt clean x sc flow inh outer s) e) body ->
-      forallb nonbinding body = true ->
-      forall s, St sc s e -> St sc (fold_left (fun st y => walk_stmt clean y sc flow inh outer st) body s) e.
+  Lemma walk_nonbinding_gen : forall (Q : st -> Prop), (forall d s, Q s -> Q (attach_doc clean d s)) ->
+      forall x, nonbinding x = true -> forall sc flow inh outer s, Q s -> Q (walk_stmt clean x sc flow inh outer s).
   Proof.
-    intros sc flow inh outer e body HF HB.
-    apply (fold_preserves (fun s => St sc s e) (fun y st => walk_stmt clean y sc flow inh outer st)).
-    rewrite forallb_forall in HB. apply Forall_forall. intros y Hy s Hs. rewrite Forall_forall in HF. apply HF; auto.
+    intros Q HQ x. induction x as [nm ds a body IH|nm bs cds body IH|ts r|t an r|t r|d|t b o IHb IHo|b h o f IHb IHh IHo IHf|b IHb|t b o IHb IHo|b o IHb IHo|ns|]
+      using stmt_ind'; intros Hnb sc flow inh outer s HS; cbn in Hnb; try discriminate; cbn [walk_stmt]; auto.
+    - destruct t; auto; apply andb_true_iff in Hnb; destruct Hnb as [Hb Ho];
+        apply (fold_preserves Q (fun y st => walk_stmt clean y sc _ inh outer st)); auto;
+        rewrite forallb_forall in Hb; apply Forall_forall; intros y Hy s0 Hs0; rewrite Forall_forall in IHb; apply IHb; auto.
+    - repeat (apply andb_true_iff in Hnb; destruct Hnb as [Hnb ?]).
+      apply (fold_preserves Q (fun y st => walk_stmt clean y sc _ inh outer st)); auto.
+      rewrite forallb_forall in Hnb; apply Forall_forall; intros y Hy s0 Hs0; rewrite Forall_forall in IHb; apply IHb; auto.
+    - apply (fold_preserves Q (fun y st => walk_stmt clean y sc _ inh outer st)); auto.
+      rewrite forallb_forall in Hnb; apply Forall_forall; intros y Hy s0 Hs0; rewrite Forall_forall in IHb; apply IHb; auto.
+    - apply andb_true_iff in Hnb; destruct Hnb as [Hb Ho].
+      apply (fold_preserves Q (fun y st => walk_stmt clean y sc _ inh outer st)); auto.
+      rewrite forallb_forall in Hb; apply Forall_forall; intros y Hy s0 Hs0; rewrite Forall_forall in IHb; apply IHb; auto.
   Qed.
 
-  Lemma walk_nonbinding : forall x, nonbinding x = true ->
-      forall sc flow inh outer s e, St sc s e -> St sc (walk_stmt clean x sc flow inh outer s) e.
+  Lemma nb_suite : forall sc ivs flow inh outer e body,
+      forallb nonbinding body = true ->
+      forall s, St sc ivs s e -> St sc ivs (fold_left (fun st y => walk_stmt clean y sc flow inh outer st) body s) e.
   Proof.
-    intro x. induction x as [nm ds a body IH|nm bs body IH|ts r|t an r|t r|d|t b o IHb IHo|b h o f IHb IHh IHo IHf|b IHb|t b o IHb IHo|b o IHb IHo|ns|]
-      using stmt_ind'; intros Hnb sc flow inh outer s e HS; cbn in Hnb; try discriminate; cbn [walk_stmt]; auto.
-    - apply St_attach_doc. exact HS.
-    - destruct t; auto; apply andb_true_iff in Hnb; destruct Hnb as [Hb Ho]; eapply nb_suite; eauto.
-    - repeat (apply andb_true_iff in Hnb; destruct Hnb as [Hnb ?]). eapply nb_suite; eauto.
-    - eapply nb_suite; eauto.
-    - apply andb_true_iff in Hnb; destruct Hnb as [Hb Ho]. eapply nb_suite; eauto.
+    intros sc ivs flow inh outer e body HB.
+    apply (fold_preserves (fun s => St sc ivs s e) (fun y st => walk_stmt clean y sc flow inh outer st)).
+    rewrite forallb_forall in HB. apply Forall_forall. intros y Hy s Hs.
+    apply (walk_nonbinding_gen (fun s => St sc ivs s e)); auto. intros; apply St_attach_doc; auto.
   Qed.
 
   (* ---- variables: _handleModuleVar / _handleClassVar once the Attribute exists *)
@@ -472,43 +619,27 @@ Section Sim.
     intros. unfold handle_constant. destruct (is_constant n flow v expr); [discriminate|]. destruct k; auto.
   Qed.
 
-  Definition not_fun_class (v : option pyval) : Prop :=
-    match v with Some (VFun _ _ _) | Some (VClass _ _ _) => False | _ => True end.
-
-  (* what is known about the literal remembered for an existing entry, when Python's binding is not a function/class *)
-  Lemma old_val_rel : forall sc c e n k d a v,
-      agree_ns sc c e -> lookup n c = Some (OAttr k d a v) -> not_fun_class (plookup n e) -> vals = true ->
-      k = KInstanceVar \/ exists w, plookup n e = Some (VData w) /\ forall l, v = Some (AvLit l) -> w = Some l.
-  Proof.
-    intros sc c e n k d a v H Hl Hnf Hv. inversion H as [? ? ? R1 R2 R3 R4]; subst.
-    destruct (R3 _ _ Hl) as [Hd|[_ Hi]].
-    - unfold pdef in Hd. destruct (plookup n e) as [v0|] eqn:E; [|discriminate].
-      assert (Ha : is_aux v0 = false) by (destruct (is_aux v0); [discriminate|reflexivity]).
-      specialize (R4 _ _ _ Hl E Ha). inversion R4; subst; cbn in Hnf; try contradiction.
-      match goal with Hr : _ -> C03Rel.val_rel _ _ _ |- _ => destruct (Hr ltac:(first [assumption|reflexivity])) as [?|Hr'] end; eauto.
-    - destruct k; try discriminate. auto.
-  Qed.
-
-  Lemma St_var : forall sc s e default flow n ann expr aug pv,
-      St sc s e -> default <> KProperty -> not_fun_class (plookup n e) ->
+  Lemma St_var : forall sc ivs s e default flow n ann expr aug pv,
+      St sc ivs s e -> default <> KProperty -> not_fun_class (plookup n e) ->
       (vals = true -> forall l, expr = Some (RLit l) -> aug = false -> pv = Some l) ->
       (vals = true -> expr = None -> literal_bound n e = false) ->
-      St sc (handle_var default flow n ann expr aug
+      (ann <> None -> In n ANN) ->
+      St sc ivs (handle_var default flow n ann expr aug
                (match lookup n (contents s) with Some _ => s | None => add_obj n (OAttr default None None None) s end))
          (bind n (VData pv) e).
   Proof.
-    intros sc s e default flow n ann expr aug pv HS Hd Hnf H1 H2. unfold handle_var.
-    pose proof (St_nodup _ _ _ HS) as ND. destruct HS as [HA [HG HC]].
+    intros sc ivs s e default flow n ann expr aug pv HS Hd Hnf H1 H2 Hann. unfold handle_var.
+    pose proof (St_nodup _ _ _ _ HS) as ND. pose proof (st_agree _ _ _ _ HS) as HA.
     set (f := fun k (d : option text) a v => OAttr (handle_constant n flow default k v expr) d (set_ann a ann) (store_value v expr aug)).
-    assert (Hfin : forall s1 o, upd (contents s) n o (contents s1) ->
-                   (exists k d a v, o = OAttr k d a v /\ k <> KProperty /\ (vals = true -> val_rel k v pv)) ->
-                   St sc (set_cur (if aug then None else Some n) s1) (bind n (VData pv) e)).
-    { intros s1 o HU [k [d [a [v [Ho [Hk Hvr]]]]]]. subst o. split; [|split]; cbn [contents set_cur].
-      - eapply inv_point; [exact HA|exact (proj1 HU)| |reflexivity]. constructor; assumption.
-      - eapply good_upd; [exact HG|exact HU|exact Logic.I|cbn; discriminate].
+    assert (Hfin : forall s1 k d a v, upd (contents s) n (OAttr k d a v) (contents s1) -> imps s1 = imps s ->
+                   k <> KProperty -> (vals = true -> val_rel k v pv) -> (a = None \/ In n ANN) ->
+                   St sc ivs (set_cur (if aug then None else Some n) s1) (bind n (VData pv) e)).
+    { intros s1 k d a v HU Him Hk Hvr Hw.
+      eapply St_point; [exact HS|exact HU|exact Him| | |reflexivity|exact Hw].
       - destruct aug; [apply cur_ok_none; reflexivity|].
-        eapply cur_ok_some; [rewrite (proj2 (proj1 HU)), text_eqb_refl; reflexivity|]. intros d1 a1 v1 Heq. inversion Heq. congruence. }
-    (* the literal stored after the update, against the value bound *)
+        eapply cur_ok_some; [reflexivity|cbn; rewrite (proj2 (proj1 HU)), text_eqb_refl; reflexivity|].
+        intros d1 a1 v1 Heq. inversion Heq. congruence.
+      - constructor; assumption. }
     assert (Hstore : forall k v, (vals = true -> k = KInstanceVar \/ exists w, plookup n e = Some (VData w) /\ forall l, v = Some (AvLit l) -> w = Some l)
                                  \/ v = None ->
                      vals = true -> val_rel (handle_constant n flow default k v expr) (store_value v expr aug) pv).
@@ -526,16 +657,18 @@ Section Sim.
     destruct (lookup n (contents s)) as [o|] eqn:E.
     - destruct (doc_entry_of_data _ _ _ _ _ HA E Hnf) as [k [d [a [v [Ho Hk]]]]]. subst o.
       pose proof (upd_attr_upd' n f s k d a v ND E) as HU.
-      eapply Hfin; [exact HU|]. subst f. cbn. do 4 eexists. split; [reflexivity|]. split; [apply handle_constant_not_property; auto|].
-      apply Hstore. left. intro Hv. eapply old_val_rel; eauto.
-    - set (blank := OAttr default None None None).
-      pose proof (add_obj_upd' n blank s ND) as HU1.
-      assert (E1 : lookup n (contents (add_obj n blank s)) = Some blank).
+      eapply (Hfin (upd_attr n f s)); [exact HU|apply imps_upd_attr|apply handle_constant_not_property; auto| |].
+      + apply Hstore. left. intro Hv. eapply old_val_rel; eauto.
+      + apply set_ann_wip; auto. exact (st_good _ _ _ _ HS n _ (lookup_In _ _ _ E)).
+    - set (blk := OAttr default None None None).
+      pose proof (add_obj_upd' n blk s ND) as HU1.
+      assert (E1 : lookup n (contents (add_obj n blk s)) = Some blk).
       { rewrite (proj2 (proj1 HU1)). rewrite text_eqb_refl. reflexivity. }
-      pose proof (upd_attr_upd' n f (add_obj n blank s) _ _ _ _ (proj1 (proj1 HU1)) E1) as HU2.
-      pose proof (upd_trans_attr _ _ _ _ _ _ HU1 eq_refl HU2) as HU.
-      eapply Hfin; [exact HU|]. subst f blank. cbn. do 4 eexists. split; [reflexivity|]. split; [apply handle_constant_not_property; auto|].
-      apply Hstore. right. reflexivity.
+      pose proof (upd_attr_upd' n f (add_obj n blk s) _ _ _ _ (proj1 (proj1 HU1)) E1) as HU2.
+      pose proof (upd_trans_blank _ _ _ _ _ _ HU1 ltac:(eexists; reflexivity) HU2) as HU.
+      eapply (Hfin (upd_attr n f (add_obj n blk s))); [exact HU|rewrite imps_upd_attr; apply imps_add_obj|apply handle_constant_not_property; auto| |].
+      + apply Hstore. right. reflexivity.
+      + apply set_ann_wip; auto.
   Qed.
 
   Lemma meta_tables : module_meta_vars = py_meta_names.
@@ -552,55 +685,68 @@ Section Sim.
     | _ => True
     end.
 
-  Lemma aliasing_plain : forall chain n expr s, plain_expr expr -> aliasing chain n expr s = None.
-  Proof.
-    intros chain n expr s H. unfold aliasing. destruct (lookup n (contents s)); auto.
-    destruct expr as [[| | |]|]; cbn in H; auto; contradiction.
-  Qed.
-
   Lemma oldschool_plain : forall n expr s, plain_expr expr -> oldschool n expr s = None.
   Proof.
     intros n expr s H. unfold oldschool. destruct expr as [[v|y|f args|]|]; auto.
     destruct args as [|arg [|? ?]]; auto. unfold plain_expr in H. rewrite H. rewrite andb_false_r. reflexivity.
   Qed.
 
-  Lemma St_data_target : forall sc flow inh chain n ann expr (aug : bool) pv s e e',
-      St sc s e -> (aug = true \/ plain_expr expr) ->
+  (* what a successful bind_data says *)
+  Lemma bind_data_inv : forall pinh n v e e',
+      bind_data g pinh n v e = Some e' ->
+      mem n py_meta_names = false /\ not_fun_class (plookup n e) /\ e' = bind n v e /\
+      (pdef n e = false -> pfirst n pinh <> Some false).
+  Proof.
+    intros pinh n v e e' H. unfold bind_data in H. destruct (mem n py_meta_names); [discriminate|].
+    split; [reflexivity|]. unfold pdef.
+    destruct (plookup n e) as [[| |w|i]|] eqn:E; try discriminate; cbn.
+    - inversion H. repeat split; auto. intro; discriminate.
+    - destruct (pfirst n pinh) as [[|]|]; try rewrite Hshadow in H; inversion H; repeat split; auto; intros _; discriminate.
+    - destruct (pfirst n pinh) as [[|]|]; try rewrite Hshadow in H; inversion H; repeat split; auto; intros _; discriminate.
+  Qed.
+
+  Lemma St_data_target : forall sc ivs flow inh pinh chain n ann expr (aug : bool) pv s e e',
+      St sc ivs s e -> (aug = true \/ plain_expr expr) ->
       (if aug return Prop then (exists w, plookup n e = Some (VData w)) /\ mem n py_meta_names = false /\ e' = bind n (VData pv) e
-       else bind_data n (VData pv) e = Some e') ->
-      (sc = ScClass -> lookup n inh <> Some SNonAttr) ->
+       else bind_data g pinh n (VData pv) e = Some e') ->
+      mem_rel inh pinh ->
       (vals = true -> forall l, expr = Some (RLit l) -> aug = false -> pv = Some l) ->
       (vals = true -> expr = None -> literal_bound n e = false) ->
-      St sc (handle_assignment sc flow inh chain (TName n) ann expr aug s) e'.
+      (ann <> None -> In n ANN) ->
+      St sc ivs (handle_assignment sc flow inh chain (TName n) ann expr aug s) e'.
   Proof.
-    intros sc flow inh chain n ann expr aug pv s e e' HS Hpl Hpy Hinh Hv1 Hv2.
+    intros sc ivs flow inh pinh chain n ann expr aug pv s e e' HS Hpl Hpy Hmem Hv1 Hv2 Hann.
+    pose proof (st_agree _ _ _ _ HS) as HA. inversion HA as [? ? ? R1 R2 R3 R4]; subst.
     assert (Hfacts : mem n py_meta_names = false /\ not_fun_class (plookup n e) /\ e' = bind n (VData pv) e /\
-                     (aug = true -> lookup n (contents s) <> None)).
+                     (aug = true -> lookup n (contents s) <> None) /\
+                     (lookup n (contents s) = None -> lookup n inh <> Some SNonAttr)).
     { destruct aug.
       - destruct Hpy as [[w Hw] [Hm He]]. repeat split; auto.
         + rewrite Hw. exact I.
-        + intros _. destruct HS as [HA _]. inversion HA as [? ? ? R1 R2 R3 R4]; subst. apply R2. unfold pdef. rewrite Hw. reflexivity.
-      - unfold bind_data in Hpy. destruct (mem n py_meta_names); [discriminate|]. repeat split; auto.
-        + destruct (plookup n e) as [[| | |]|]; try discriminate; exact I.
-        + destruct (plookup n e) as [[| | |]|]; try discriminate; inversion Hpy; reflexivity.
-        + intro; discriminate. }
-    destruct Hfacts as [Hmeta [Hnf [He' Haug]]]. subst e'.
+        + intros _. apply R2. unfold pdef. rewrite Hw. reflexivity.
+        + intro E. exfalso. apply (R2 n); auto. unfold pdef. rewrite Hw. reflexivity.
+      - destruct (bind_data_inv _ _ _ _ _ Hpy) as [Hm [Hnf [He Hsh]]]. repeat split; auto.
+        + intro; discriminate.
+        + intros E Hl. assert (Hd : pdef n e = false).
+          { destruct (pdef n e) eqn:Ed; auto. exfalso. apply (R2 n Ed). exact E. }
+          apply (Hsh Hd). apply (proj1 Hmem). exact Hl. }
+    destruct Hfacts as [Hmeta [Hnf [He' [Haug Hinh]]]]. subst e'.
     assert (Hal : aliasing chain n expr s = None).
     { unfold aliasing. destruct (lookup n (contents s)) eqn:E; auto.
       destruct Hpl as [Hpl|Hpl]; [exfalso; apply (Haug Hpl); reflexivity|].
       destruct expr as [[| | |]|]; cbn in Hpl; auto; contradiction. }
     cbn [handle_assignment]. destruct sc.
     - rewrite Hal. unfold handle_module_var. rewrite meta_tables, Hmeta.
-      pose proof (St_var ScModule s e KVariable flow n ann expr aug pv HS ltac:(discriminate) Hnf Hv1 Hv2) as HV.
+      pose proof (St_var ScModule ivs s e KVariable flow n ann expr aug pv HS ltac:(discriminate) Hnf Hv1 Hv2 Hann) as HV.
       destruct (lookup n (contents s)) as [o|] eqn:E.
-      + destruct HS as [HA HG]. destruct (doc_entry_of_data _ _ _ _ _ HA E Hnf) as [k [d [a [v [Ho Hk]]]]]. subst o. exact HV.
+      + destruct (doc_entry_of_data _ _ _ _ _ HA E Hnf) as [k [d [a [v [Ho Hk]]]]]. subst o. exact HV.
       + destruct aug; [exfalso; apply Haug; auto|exact HV].
     - assert (Hold : (if aug then None else oldschool n expr s) = None).
       { destruct aug; auto. destruct Hpl as [Hpl|Hpl]; [discriminate|]. auto using oldschool_plain. }
       rewrite Hold. rewrite Hal. unfold handle_class_var.
-      pose proof (St_var ScClass s e KClassVar flow n ann expr aug pv HS ltac:(discriminate) Hnf Hv1 Hv2) as HV.
+      pose proof (St_var ScClass ivs s e KClassVar flow n ann expr aug pv HS ltac:(discriminate) Hnf Hv1 Hv2 Hann) as HV.
       destruct (lookup n (contents s)) as [o|] eqn:E.
-      + destruct HS as [HA HG]. destruct (doc_entry_of_data _ _ _ _ _ HA E Hnf) as [k [d [a [v [Ho Hk]]]]]. subst o.
+      + destruct (doc_entry_of_data _ _ _ _ _ HA E Hnf) as [k [d [a [v [Ho Hk]]]]]. subst o.
         rewrite (maybe_attribute_present _ _ _ _ E). cbn [is_attr negb]. exact HV.
       + assert (Hm : maybe_attribute inh (contents s) n = true).
         { unfold maybe_attribute. rewrite E. specialize (Hinh eq_refl). destruct (lookup n inh) as [[|]|]; auto; congruence. }
@@ -608,27 +754,27 @@ Section Sim.
   Qed.
 
   (* ---- visit_Assign *)
-  Lemma bind_unpacked_inv : forall n e e1, bind_unpacked strict n e = Some e1 ->
-      bind_data n (VData None) e = Some e1 /\ (strict = true -> literal_bound n e = false).
+  Lemma bind_unpacked_inv : forall pinh n e e1, bind_unpacked g pinh n e = Some e1 ->
+      bind_data g pinh n (VData None) e = Some e1 /\ (g_unpack g = true -> literal_bound n e = false).
   Proof.
-    intros n e e1 H. unfold bind_unpacked in H. destruct strict; cbn in H.
+    intros pinh n e e1 H. unfold bind_unpacked in H. destruct (g_unpack g); cbn in H.
     - destruct (literal_bound n e); [discriminate|]. auto.
     - split; auto. intro; discriminate.
   Qed.
 
-  Lemma St_tuple_names : forall sc flow inh chain ns s e e',
-      St sc s e -> ofold (bind_unpacked strict) ns e = Some e' ->
-      (forall n, In n ns -> sc = ScClass -> lookup n inh <> Some SNonAttr) ->
-      St sc (fold_left (fun s n => handle_assignment sc flow inh chain (TName n) None None false s) ns s) e'.
+  Lemma St_tuple_names : forall sc ivs flow inh pinh chain ns s e e',
+      St sc ivs s e -> ofold (bind_unpacked g pinh) ns e = Some e' -> mem_rel inh pinh ->
+      St sc ivs (fold_left (fun s n => handle_assignment sc flow inh chain (TName n) None None false s) ns s) e'.
   Proof.
-    intros sc flow inh chain ns. induction ns as [|n ns IH]; cbn; intros s e e' HS Hpy Hinh.
+    intros sc ivs flow inh pinh chain ns. induction ns as [|n ns IH]; cbn [fold_left ofold]; intros s e e' HS Hpy Hmem.
     - inversion Hpy; subst. exact HS.
-    - destruct (bind_unpacked strict n e) as [e1|] eqn:E1; [|discriminate].
-      destruct (bind_unpacked_inv _ _ _ E1) as [Eb Hlit].
-      eapply IH; [|exact Hpy|intros; apply Hinh; auto].
-      apply (St_data_target sc flow inh chain n None None false None s e e1); auto.
+    - destruct (bind_unpacked g pinh n e) as [e1|] eqn:E1; [|discriminate].
+      destruct (bind_unpacked_inv _ _ _ _ E1) as [Eb Hlit].
+      eapply IH; [|exact Hpy|exact Hmem].
+      apply (St_data_target sc ivs flow inh pinh chain n None None false None s e e1); auto.
       + right; exact I.
       + intros; discriminate.
+      + intro Hc; contradiction.
   Qed.
 
   Definition assign_step (sc : scope) (flow : bool) (inh : list (name * summary)) (outer : list (contents_t * imps_t)) (r : rhs) :=
@@ -637,22 +783,21 @@ Section Sim.
                | _ => handle_assignment sc flow inh outer t None (Some r) false s
                end.
 
-  Lemma St_targets_data : forall sc flow inh outer r pv ts s e e',
-      St sc s e -> plain_expr (Some r) -> ofold (bind_target strict (VData pv)) ts e = Some e' ->
-      (forall n, In n (flat_map target_names ts) -> sc = ScClass -> lookup n inh <> Some SNonAttr) ->
-      (forall l, r = RLit l -> pv = Some l) ->
-      St sc (fold_left (assign_step sc flow inh outer r) ts s) e'.
+  Lemma St_targets_data : forall sc ivs flow inh pinh outer r pv ts s e e',
+      St sc ivs s e -> plain_expr (Some r) -> ofold (bind_target g pinh (VData pv)) ts e = Some e' ->
+      mem_rel inh pinh -> (forall l, r = RLit l -> pv = Some l) ->
+      St sc ivs (fold_left (assign_step sc flow inh outer r) ts s) e'.
   Proof.
-    intros sc flow inh outer r pv ts. induction ts as [|t ts IH]; cbn [fold_left ofold]; intros s e e' HS Hpl Hpy Hinh Hrv.
+    intros sc ivs flow inh pinh outer r pv ts. induction ts as [|t ts IH]; cbn [fold_left ofold]; intros s e e' HS Hpl Hpy Hmem Hrv.
     - inversion Hpy; subst. exact HS.
-    - destruct (bind_target strict (VData pv) t e) as [e1|] eqn:E1; [|discriminate].
-      eapply IH; [|exact Hpl|exact Hpy|intros; apply Hinh; auto; cbn; apply in_or_app; auto|exact Hrv].
+    - destruct (bind_target g pinh (VData pv) t e) as [e1|] eqn:E1; [|discriminate].
+      eapply IH; [|exact Hpl|exact Hpy|exact Hmem|exact Hrv].
       destruct t as [n|ns|a]; cbn [assign_step].
-      + cbn in E1. apply (St_data_target sc flow inh outer n None (Some r) false pv s e e1); auto.
-        * intros; apply Hinh; auto. cbn. auto.
+      + cbn in E1. apply (St_data_target sc ivs flow inh pinh outer n None (Some r) false pv s e e1); auto.
         * intros _ l Hl _. inversion Hl. auto.
         * intros; discriminate.
-      + cbn in E1. eapply St_tuple_names; eauto. intros; apply Hinh; auto. cbn. apply in_or_app. auto.
+        * intro Hc; contradiction.
+      + cbn in E1. eapply St_tuple_names; eauto.
       + discriminate.
   Qed.
 
@@ -666,18 +811,16 @@ Section Sim.
     - intros m o' H. apply in_replace in H. destruct H as [H|H]; [inversion H; auto|auto].
   Qed.
 
-  Lemma static_class_distinct : text_eqb p_classmethod p_staticmethod = false.
-  Proof. reflexivity. Qed.
-
   (* one Name target with the statement's own right-hand side (Assign with a single target, AnnAssign) *)
-  Lemma St_single : forall sc flow inh outer n ann r v s e e',
-      St sc s e -> assign_value (pscope_of sc) e [TName n] r = Some v -> bind_target strict v (TName n) e = Some e' ->
-      (forall pv, v = VData pv -> sc = ScClass -> lookup n inh <> Some SNonAttr) ->
-      St sc (handle_assignment sc flow inh outer (TName n) ann (Some r) false s) e'.
+  Lemma St_single : forall sc ivs flow inh pinh outer n ann r v s e e',
+      St sc ivs s e -> assign_value (pscope_of sc) e [TName n] r = Some v -> bind_target g pinh v (TName n) e = Some e' ->
+      mem_rel inh pinh -> (ann <> None -> In n ANN) ->
+      St sc ivs (handle_assignment sc flow inh outer (TName n) ann (Some r) false s) e'.
   Proof.
-    intros sc flow inh outer n ann r v s e e' HS Ev Hpy Hinh.
+    intros sc ivs flow inh pinh outer n ann r v s e e' HS Ev Hpy Hmem Hann.
     destruct r as [lv|y|f args|]; cbn in Ev.
-    - inversion Ev; subst. cbn in Hpy. specialize (Hinh _ eq_refl). apply (St_data_target sc flow inh outer n ann (Some (RLit lv)) false (Some lv) s e e'); auto;
+    - inversion Ev; subst. cbn in Hpy.
+      apply (St_data_target sc ivs flow inh pinh outer n ann (Some (RLit lv)) false (Some lv) s e e'); auto;
         [right; exact I|intros _ l Hl _; inversion Hl; reflexivity|intros; discriminate].
     - discriminate.
     - destruct (text_eqb f p_staticmethod || text_eqb f p_classmethod) eqn:Ef.
@@ -690,75 +833,66 @@ Section Sim.
         { destruct w0; try discriminate; inversion Ev; split; auto; discriminate. }
         destruct Hw0 as [Hw0 Hv]. subst v. cbn in Hpy. inversion Hpy; subst e'. clear Hpy Ev.
         cbn [handle_assignment].
-        pose proof (St_nodup _ _ _ HS) as ND. destruct HS as [HA [HG HC]].
+        pose proof (St_nodup _ _ _ _ HS) as ND. pose proof (st_agree _ _ _ _ HS) as HA.
         inversion HA as [? ? ? R1 R2 R3 R4]; subst.
         assert (Hd : pdef n e = true) by (unfold pdef; rewrite Ep; reflexivity).
         destruct (lookup n (contents s)) as [o|] eqn:E; [|exfalso; eapply R2; eauto].
         specialize (R4 _ _ _ E Ep eq_refl). inversion R4; subst; [|congruence].
-        assert (Hmem : mem f oldschool_names = true).
+        assert (Hmem' : mem f oldschool_names = true).
         { rewrite oldschool_table. cbn. apply orb_true_iff in Ef. destruct Ef as [Ef|Ef]; rewrite Ef; cbn; auto. apply orb_true_r. }
-        unfold oldschool. rewrite text_eqb_refl, Hmem, E. cbn [andb].
+        unfold oldschool. rewrite text_eqb_refl, Hmem', E. cbn [andb].
         set (k' := if text_eqb f t_staticmethod then KStaticMethod else if text_eqb f t_classmethod then KClassMethod else k).
         pose proof (replace_upd n (OFun k' asy (option_map clean d)) s _ ND E) as HU.
-        split; [|split]; cbn [contents set_contents].
-        * eapply inv_point; [exact HA|exact (proj1 HU)| |reflexivity].
-          constructor; auto. subst k'. change t_staticmethod with p_staticmethod. change t_classmethod with p_classmethod.
+        eapply St_point; [exact HS|exact HU|reflexivity| | |reflexivity|exact Logic.I].
+        * intros m Hm d1 a1 v1. cbn in Hm. cbn. rewrite (proj2 (proj1 HU)).
+          destruct (text_eqb m n) eqn:Emn; [discriminate|]. exact (st_cur _ _ _ _ HS m Hm d1 a1 v1).
+        * constructor; auto. subst k'. change t_staticmethod with p_staticmethod. change t_classmethod with p_classmethod.
           destruct (text_eqb f p_staticmethod) eqn:E1; [reflexivity|].
           cbn in Ef. rewrite Ef. reflexivity.
-        * eapply good_upd; [exact HG|exact HU|exact Logic.I|]. intros _. apply (proj1 HG n _ (lookup_In _ _ _ E)). reflexivity.
-        * intros m Hm d1 a1 v1. cbn in Hm. cbn. rewrite (proj2 (proj1 HU)).
-          destruct (text_eqb m n) eqn:Emn; [discriminate|]. exact (HC m Hm d1 a1 v1).
-      + destruct (text_eqb f p_property); [discriminate|]. inversion Ev; subst. cbn in Hpy. specialize (Hinh _ eq_refl).
-        apply (St_data_target sc flow inh outer n ann (Some (RCall f args)) false None s e e'); auto;
+      + destruct (text_eqb f p_property); [discriminate|]. inversion Ev; subst. cbn in Hpy.
+        apply (St_data_target sc ivs flow inh pinh outer n ann (Some (RCall f args)) false None s e e'); auto;
           [|intros; discriminate|intros; discriminate].
         right. unfold plain_expr. rewrite oldschool_table. cbn.
         apply orb_false_iff in Ef. destruct Ef as [E1 E2]. rewrite E1, E2. reflexivity.
-    - inversion Ev; subst. cbn in Hpy. specialize (Hinh _ eq_refl). apply (St_data_target sc flow inh outer n ann (Some ROther) false None s e e'); auto;
+    - inversion Ev; subst. cbn in Hpy.
+      apply (St_data_target sc ivs flow inh pinh outer n ann (Some ROther) false None s e e'); auto;
         [right; exact I|intros; discriminate|intros; discriminate].
   Qed.
 
-  Lemma St_assign : forall sc flow inh outer ts r s e e',
-      St sc s e -> py_stmt strict (Assign ts r) (pscope_of sc) e = Some e' ->
-      (forall n, In n (assigned_names (Assign ts r)) -> sc = ScClass -> lookup n inh <> Some SNonAttr) ->
-      St sc (walk_stmt clean (Assign ts r) sc flow inh outer s) e'.
+  Lemma St_assign : forall sc ivs flow inh pinh outer ts r s e e' fr,
+      St sc ivs s e -> py_stmt g (Assign ts r) (pscope_of sc) pinh ivs fr e = Some e' -> mem_rel inh pinh ->
+      St sc ivs (walk_stmt clean (Assign ts r) sc flow inh outer s) e'.
   Proof.
-    intros sc flow inh outer ts r s e e' HS Hpy Hinh0.
-    assert (Hinh : is_wrapping ts r = false ->
-                   forall n, In n (flat_map target_names ts) -> sc = ScClass -> lookup n inh <> Some SNonAttr).
-    { intros Hw. cbn [assigned_names] in Hinh0. rewrite Hw in Hinh0. exact Hinh0. }
-    clear Hinh0. cbn [walk_stmt py_stmt] in *.
-    change (St sc (fold_left (assign_step sc flow inh outer r) ts s) e').
+    intros sc ivs flow inh pinh outer ts r s e e' fr HS Hpy Hmem. cbn [walk_stmt py_stmt] in *.
+    change (St sc ivs (fold_left (assign_step sc flow inh outer r) ts s) e').
     destruct (assign_value (pscope_of sc) e ts r) as [v|] eqn:Ev; [|discriminate].
-    destruct v as [asy w d|x d ns|pv|].
+    destruct v as [asy w d|x d ns mro ivs0|pv|i].
     - (* only the wrapping form yields a function: a single Name target *)
       destruct r as [lv|y|f args|]; cbn in Ev; try discriminate.
       destruct (text_eqb f p_staticmethod || text_eqb f p_classmethod) eqn:Ef;
         [|destruct (text_eqb f p_property); discriminate].
       destruct (pscope_of sc) eqn:Esc; [discriminate|].
       destruct ts as [|[n| |] [|? ?]]; try discriminate.
-      cbn [ofold] in Hpy. destruct (bind_target strict (VFun asy w d) (TName n) e) as [e1|] eqn:Eb; [|discriminate].
+      cbn [ofold] in Hpy. destruct (bind_target g pinh (VFun asy w d) (TName n) e) as [e1|] eqn:Eb; [|discriminate].
       inversion Hpy; subst e1. cbn [fold_left assign_step].
       eapply St_single; eauto.
       * rewrite Esc. cbn. rewrite Ef. exact Ev.
-      * intros; discriminate.
+      * intro Hc; contradiction.
     - destruct r as [lv|y|f args|]; cbn in Ev; try discriminate.
       destruct (text_eqb f p_staticmethod || text_eqb f p_classmethod).
       + destruct (pscope_of sc); [discriminate|]. destruct ts as [|[n| |] [|? ?]]; try discriminate.
         destruct args as [|a [|? ?]]; try discriminate. destruct (text_eqb n a); [|discriminate].
         destruct (plookup n e) as [[? [| | |] ?| | |]|]; discriminate.
       + destruct (text_eqb f p_property); discriminate.
-    - assert (Hplain : plain_expr (Some r) /\ is_wrapping ts r = false).
-      { destruct r as [lv|y|f args|]; cbn in Ev; try discriminate; try (split; [exact I|reflexivity]).
+    - assert (Hplain : plain_expr (Some r)).
+      { destruct r as [lv|y|f args|]; cbn in Ev; try discriminate; try exact I.
         destruct (text_eqb f p_staticmethod || text_eqb f p_classmethod) eqn:Ef.
         + destruct (pscope_of sc); [discriminate|]. destruct ts as [|[n| |] [|? ?]]; try discriminate.
           destruct args as [|a [|? ?]]; try discriminate. destruct (text_eqb n a); [|discriminate].
           destruct (plookup n e) as [[? [| | |] ?| | |]|]; discriminate.
-        + split.
-          * unfold plain_expr. rewrite oldschool_table. cbn.
-            apply orb_false_iff in Ef. destruct Ef as [E1 E2]. rewrite E1, E2. reflexivity.
-          * unfold is_wrapping. destruct args as [|a [|? ?]]; auto. destruct ts as [|[n| |] [|? ?]]; auto.
-            rewrite Ef. apply andb_false_r. }
-      destruct Hplain as [Hplain Hw]. eapply St_targets_data; eauto.
+        + unfold plain_expr. rewrite oldschool_table. cbn.
+          apply orb_false_iff in Ef. destruct Ef as [E1 E2]. rewrite E1, E2. reflexivity. }
+      eapply St_targets_data; eauto.
       intros l Hl. subst r. cbn in Ev. inversion Ev. reflexivity.
     - destruct r as [lv|y|f args|]; cbn in Ev; try discriminate.
       destruct (text_eqb f p_staticmethod || text_eqb f p_classmethod).
@@ -768,31 +902,30 @@ Section Sim.
       + destruct (text_eqb f p_property); discriminate.
   Qed.
 
-  Lemma St_annassign : forall sc flow inh outer t ann r s e e',
-      St sc s e -> py_stmt strict (AnnAssign t ann r) (pscope_of sc) e = Some e' ->
-      (forall n, In n (target_names t) -> sc = ScClass -> lookup n inh <> Some SNonAttr) ->
-      St sc (walk_stmt clean (AnnAssign t ann r) sc flow inh outer s) e'.
+  Lemma St_annassign : forall sc ivs flow inh pinh outer t ann r s e e' fr,
+      St sc ivs s e -> py_stmt g (AnnAssign t ann r) (pscope_of sc) pinh ivs fr e = Some e' -> mem_rel inh pinh ->
+      incl (ann_names (AnnAssign t ann r)) ANN ->
+      St sc ivs (walk_stmt clean (AnnAssign t ann r) sc flow inh outer s) e'.
   Proof.
-    intros sc flow inh outer t ann r s e e' HS Hpy Hinh. cbn [walk_stmt py_stmt] in *.
+    intros sc ivs flow inh pinh outer t ann r s e e' fr HS Hpy Hmem Hann. cbn [walk_stmt py_stmt] in *.
     destruct t as [n|ns|a]; try discriminate. destruct r as [r|]; [|discriminate].
     destruct (assign_value (pscope_of sc) e [TName n] r) as [v|] eqn:Ev; [|discriminate].
-    eapply St_single; eauto. intros; apply Hinh; auto. cbn. auto.
+    eapply St_single; eauto. intros _. apply Hann. cbn. auto.
   Qed.
 
-  Lemma St_augassign : forall sc flow inh outer t r s e e',
-      St sc s e -> py_stmt strict (AugAssign t r) (pscope_of sc) e = Some e' ->
-      (forall n, In n (target_names t) -> sc = ScClass -> lookup n inh <> Some SNonAttr) ->
-      St sc (walk_stmt clean (AugAssign t r) sc flow inh outer s) e'.
+  Lemma St_augassign : forall sc ivs flow inh pinh outer t r s e e' fr,
+      St sc ivs s e -> py_stmt g (AugAssign t r) (pscope_of sc) pinh ivs fr e = Some e' -> mem_rel inh pinh ->
+      St sc ivs (walk_stmt clean (AugAssign t r) sc flow inh outer s) e'.
   Proof.
-    intros sc flow inh outer t r s e e' HS Hpy Hinh. cbn [walk_stmt py_stmt] in *.
+    intros sc ivs flow inh pinh outer t r s e e' fr HS Hpy Hmem. cbn [walk_stmt py_stmt] in *.
     destruct t as [n|ns|a]; try discriminate.
     destruct (mem n py_meta_names) eqn:Em; [discriminate|].
     destruct (plookup n e) as [[| |w|]|] eqn:Ep; try discriminate. inversion Hpy; subst e'.
-    apply (St_data_target sc flow inh outer n None (Some r) true None s e (bind n (VData None) e)); auto.
+    apply (St_data_target sc ivs flow inh pinh outer n None (Some r) true None s e (bind n (VData None) e)); auto.
     - repeat split; eauto.
-    - intros; apply Hinh; auto. cbn. auto.
     - intros; discriminate.
     - intros; discriminate.
+    - intro Hc; contradiction.
   Qed.
 
   (* ---- decorators: what _handleFunctionDef computes against what the decorators do *)
@@ -875,63 +1008,56 @@ Section Sim.
       rewrite <- (IH fl) at 2. f_equal. unfold deco_step. destruct (rev (deco_dotted d)); reflexivity.
   Qed.
 
-  Lemma existsb_false : forall {X} (f : X -> bool) l, existsb f l = false -> forall x, In x l -> f x = false.
-  Proof.
-    induction l as [|y l IH]; cbn; intros H x Hin; [tauto|].
-    apply orb_false_iff in H. destruct H as [H1 H2]. destruct Hin as [Hin|Hin]; [subst; auto|auto].
-  Qed.
-
   (* ---- _handleFunctionDef *)
-  Lemma St_def : forall sc flow inh outer nm ds a body s e e',
-      St sc s e -> py_stmt strict (Def nm ds a body) (pscope_of sc) e = Some e' -> In nm DN ->
-      St sc (walk_stmt clean (Def nm ds a body) sc flow inh outer s) e'.
+  Lemma St_def : forall sc ivs flow inh pinh outer nm ds a body s e e' fr,
+      St sc ivs s e -> py_stmt g (Def nm ds a body) (pscope_of sc) pinh ivs fr e = Some e' ->
+      (sc = ScClass -> incl (stmt_ivars (Def nm ds a body)) ivs) -> incl (ann_names (Def nm ds a body)) ANN ->
+      St sc ivs (walk_stmt clean (Def nm ds a body) sc flow inh outer s) e'.
   Proof.
-    intros sc flow inh outer nm ds a body s e e' HS Hpy Hdn. cbn [py_stmt] in Hpy.
+    intros sc ivs flow inh pinh outer nm ds a body s e e' fr HS Hpy Hself Hann. cbn [py_stmt] in Hpy.
     destruct (def_wrap (pscope_of sc) ds WNone) as [w|] eqn:Ew; [|discriminate].
     inversion Hpy; subst e'. clear Hpy.
-    pose proof (St_nodup _ _ _ HS) as ND.
+    pose proof (St_nodup _ _ _ _ HS) as ND.
     assert (Hfl : deco_flags (match sc with ScClass => true | ScModule => false end) nm ds = flags_of nm w /\
                   (sc = ScModule -> w = WNone)).
     { destruct sc; cbn in Ew.
       - destruct (deco_flags_module nm ds w Ew) as [Hw Hf]. subst. auto.
       - split; [|discriminate]. unfold deco_flags. apply (deco_flags_class nm ds WNone w Ew). }
     destruct Hfl as [Hfl Hmod]. cbn [walk_stmt]. rewrite Hfl.
-    assert (Hadd : forall o, agree_obj sc o (VFun a w (docstring_of body)) -> (is_attr o = false -> In nm DN) ->
-                             (match o with OClass _ _ _ _ _ => False | _ => True end) ->
-                             St sc (set_cur None (add_obj nm o s)) (bind nm (VFun a w (docstring_of body)) e)).
-    { intros o Ho Hn Hcl. pose proof (add_obj_upd' nm o s ND) as HU. destruct HS as [HA [HG HC]]. split; [|split].
-      - eapply inv_point; [exact HA|exact (proj1 HU)|exact Ho|reflexivity].
-      - eapply good_upd; [exact HG|exact HU| |exact Hn]. destruct o; try exact Logic.I. contradiction.
-      - apply cur_ok_none. reflexivity. }
+    assert (Hadd : forall o, agree_obj sc o (VFun a w (docstring_of body)) -> wip_obj nm o ->
+                             St sc ivs (set_cur None (add_obj nm o s)) (bind nm (VFun a w (docstring_of body)) e)).
+    { intros o Ho Hw. pose proof (add_obj_upd' nm o s ND) as HU.
+      eapply St_point; [exact HS|exact HU|cbn; apply imps_add_obj|apply cur_ok_none; reflexivity|exact Ho|reflexivity|exact Hw]. }
     destruct w; cbn [flags_of f_prop f_name].
     4: { (* property *)
       destruct sc; [specialize (Hmod eq_refl); discriminate|].
-      apply Hadd; [constructor; reflexivity|cbn; discriminate|exact Logic.I]. }
+      apply Hadd; [constructor; reflexivity|cbn; auto]. }
     all: apply St_set_cur_none; unfold fwalk_body;
       (eapply fwalk_suite;
-       [apply Forall_forall; intros y _ s0 HS0; apply fwalk_St; [intros Hi; destruct sc; [discriminate Hi|reflexivity]|exact HS0]|]);
+       [apply Forall_forall; intros y _ s0 Hok0 HS0; apply fwalk_St; [intros Hi; destruct sc; [discriminate Hi|reflexivity]|exact Hok0|exact HS0]
+       |apply fw_ok_suite; [intros Hi; destruct sc; [discriminate Hi|]; specialize (Hself eq_refl); cbn [stmt_ivars] in Hself; cbn in Ew; rewrite Ew in Hself; exact Hself|exact Hann]|]);
       (apply Hadd; [constructor; [|reflexivity]; destruct sc; try (specialize (Hmod eq_refl); discriminate); reflexivity
-                   |intros _; exact Hdn|exact Logic.I]).
+                   |exact Logic.I]).
   Qed.
 
   (* ---- maps over the documented objects that keep what agree_ns looks at *)
-  Lemma lookup_map : forall (g : name -> obj -> obj) n c,
-      lookup n (map (fun p => (fst p, g (fst p) (snd p))) c) =
-      match lookup n c with Some o => Some (g n o) | None => None end.
+  Lemma lookup_map : forall (gf : name -> obj -> obj) n c,
+      lookup n (map (fun p => (fst p, gf (fst p) (snd p))) c) =
+      match lookup n c with Some o => Some (gf n o) | None => None end.
   Proof.
     induction c as [|[m o] c IH]; cbn; auto. destruct (text_eqb n m) eqn:E; auto.
     apply text_eqb_eq in E. subst. reflexivity.
   Qed.
 
-  Lemma keys_map : forall (g : name -> obj -> obj) c, keys (map (fun p => (fst p, g (fst p) (snd p))) c) = keys c.
+  Lemma keys_map : forall (gf : name -> obj -> obj) c, keys (map (fun p => (fst p, gf (fst p) (snd p))) c) = keys c.
   Proof. intros. unfold keys. rewrite map_map. reflexivity. Qed.
 
-  Lemma agree_map : forall (g : name -> obj -> obj) sc c e,
-      (forall n o v, agree_obj sc o v -> agree_obj sc (g n o) v) ->
-      (forall n o, is_ivar_obj o = true -> is_ivar_obj (g n o) = true) ->
-      agree_ns sc c e -> agree_ns sc (map (fun p => (fst p, g (fst p) (snd p))) c) e.
+  Lemma agree_map : forall (gf : name -> obj -> obj) sc c e,
+      (forall n o v, agree_obj sc o v -> agree_obj sc (gf n o) v) ->
+      (forall n o, is_ivar_obj o = true -> is_ivar_obj (gf n o) = true) ->
+      agree_ns sc c e -> agree_ns sc (map (fun p => (fst p, gf (fst p) (snd p))) c) e.
   Proof.
-    intros g sc c e Hg Hi H. inversion H as [? ? ? R1 R2 R3 R4]; subst. constructor.
+    intros gf sc c e Hg Hi H. inversion H as [? ? ? R1 R2 R3 R4]; subst. constructor.
     - rewrite keys_map. exact R1.
     - intros n Hn. rewrite lookup_map. specialize (R2 n Hn). destruct (lookup n c); congruence.
     - intros n o Hl. rewrite lookup_map in Hl. destruct (lookup n c) as [o0|] eqn:E; [|discriminate].
@@ -956,23 +1082,12 @@ Section Sim.
     - intros n o Ho. destruct o as [| |k d [a|] [w|]]; cbn in *; auto.
   Qed.
 
-  Lemma nonattr_infer_all : forall c, nonattr_in c -> nonattr_in (infer_all c).
-  Proof.
-    intros c H n o Hin Ha. rewrite infer_all_map in Hin. apply in_map_iff in Hin. destruct Hin as [[m o0] [Heq Hin]].
-    cbn in Heq. inversion Heq; subst. apply (H _ _ Hin). destruct o0 as [| |k d [a|] [w|]]; cbn in *; auto.
-  Qed.
 
-  (* ---- resolving a base class: the object found is one of those kept in the chain *)
-  Lemma resolve_good : forall chain b o,
-      good_chain chain -> resolve chain b = RClass o -> good_obj o.
+  Lemma fin_infer_all : forall c, good_c c -> fin_c (infer_all c).
   Proof.
-    induction chain as [|[c im] chain IH]; cbn; intros b o HG H; [discriminate|].
-    inversion HG as [|? ? Hc HG']; subst.
-    destruct (lookup b c) as [[| |]|] eqn:E.
-    - discriminate.
-    - inversion H; subst. apply (Hc b). cbn. apply lookup_In. exact E.
-    - discriminate.
-    - destruct (lookup b im) as [[?|]|]; try discriminate. eauto.
+    intros c H n o Hin. rewrite infer_all_map in Hin. apply in_map_iff in Hin. destruct Hin as [[m o0] [Heq Hin]].
+    cbn in Heq. inversion Heq; subst. specialize (H _ _ Hin).
+    destruct o0 as [| |k d [a|] [w|]]; cbn in *; auto; destruct H as [H|H]; auto; discriminate.
   Qed.
 
   Lemma mem_In : forall n l, mem n l = true <-> In n l.
@@ -982,250 +1097,7 @@ Section Sim.
     - intro H. exists n. split; auto. apply text_eqb_refl.
   Qed.
 
-  Lemma summary_nonattr : forall c n, In (n, SNonAttr) (summary_of c) -> exists o, In (n, o) c /\ is_attr o = false.
-  Proof.
-    intros c n H. unfold summary_of in H. apply in_map_iff in H. destruct H as [[m o] [Heq Hin]]. cbn in Heq.
-    destruct o; inversion Heq; subst; eauto.
-  Qed.
-
-  Lemma inherited_ok : forall chain bs,
-      good_chain chain -> inh_ok (flat_map base_inh (map (resolve chain) bs)).
-  Proof.
-    intros chain bs HG n Hin. apply in_flat_map in Hin. destruct Hin as [r [Hr Hin]].
-    apply in_map_iff in Hr. destruct Hr as [b [Hb _]]. subst r.
-    destruct (resolve chain b) as [o| |] eqn:E; cbn in Hin; try tauto.
-    pose proof (resolve_good _ _ _ HG E) as Hgo. destruct o as [|x d c oo ih|]; cbn in Hin; try tauto.
-    destruct Hgo as [Hna Hih]. apply in_app_or in Hin. destruct Hin as [Hin|Hin]; auto.
-    apply summary_nonattr in Hin. destruct Hin as [o [Ho Ha]]. eapply Hna; eauto.
-  Qed.
-
-  (* ================================================================ the import/alias map only names Python has bound *)
-  Definition imps_ok (s : st) (e : env) : Prop := forall n, lookup n (imps s) <> None -> plookup n e <> None.
-
-  Lemma plookup_bind_mono : forall n m v e, plookup n e <> None -> plookup n (bind m v e) <> None.
-  Proof. intros n m v e H. rewrite plookup_bind. destruct (text_eqb n m); [discriminate|exact H]. Qed.
-
-  Lemma imps_ok_mono : forall s s' e e',
-      imps s' = imps s -> (forall n, plookup n e <> None -> plookup n e' <> None) -> imps_ok s e -> imps_ok s' e'.
-  Proof. intros s s' e e' Hi Hm H n Hn. rewrite Hi in Hn. auto. Qed.
-
-  Lemma imps_add_obj : forall n o s, imps (add_obj n o s) = imps s.
-  Proof. intros. unfold add_obj. destruct (lookup n (contents s)); reflexivity. Qed.
-
-  Lemma imps_upd_attr : forall n f s, imps (upd_attr n f s) = imps s.
-  Proof. intros. unfold upd_attr. destruct (lookup n (contents s)) as [[| |]|]; reflexivity. Qed.
-
-  Lemma imps_attach_doc : forall d s, imps (attach_doc clean d s) = imps s.
-  Proof. intros. unfold attach_doc. destruct (cur s); [|reflexivity]. cbn. apply imps_upd_attr. Qed.
-
-  Lemma imps_hiv : forall inc inh a ann expr s, imps (handle_instance_var inc inh a ann expr s) = imps s.
-  Proof.
-    intros. unfold handle_instance_var. destruct (negb inc); [reflexivity|].
-    destruct (negb (maybe_attribute inh (contents s) a)); [reflexivity|].
-    destruct (lookup a (contents s)) as [[| |[] d an v]|]; try reflexivity; cbn; rewrite imps_upd_attr; try reflexivity.
-    apply imps_add_obj.
-  Qed.
-
-  Lemma imps_handle_var : forall default flow n ann expr aug s, imps (handle_var default flow n ann expr aug s) = imps s.
-  Proof. intros. unfold handle_var. cbn. apply imps_upd_attr. Qed.
-
-  Lemma imps_handle_module_var : forall flow n ann expr aug s, imps (handle_module_var flow n ann expr aug s) = imps s.
-  Proof.
-    intros. unfold handle_module_var. destruct (mem n module_meta_vars); [reflexivity|].
-    destruct (lookup n (contents s)) as [o|].
-    - destruct (is_attr o); [apply imps_handle_var|reflexivity].
-    - destruct aug; [reflexivity|]. rewrite imps_handle_var. apply imps_add_obj.
-  Qed.
-
-  Lemma imps_handle_class_var : forall inh flow n ann expr aug s, imps (handle_class_var inh flow n ann expr aug s) = imps s.
-  Proof.
-    intros. unfold handle_class_var. destruct (negb (maybe_attribute inh (contents s) n)); [reflexivity|].
-    destruct (lookup n (contents s)) as [o|].
-    - apply imps_handle_var.
-    - destruct aug; [reflexivity|]. rewrite imps_handle_var. apply imps_add_obj.
-  Qed.
-
-  Lemma imps_oldschool : forall n expr s s', oldschool n expr s = Some s' -> imps s' = imps s.
-  Proof.
-    intros n expr s s' H. unfold oldschool in H. destruct expr as [[| |f [|a [|? ?]]|]|]; try discriminate.
-    destruct (text_eqb n a && mem f oldschool_names); [|discriminate].
-    destruct (lookup n (contents s)) as [[k a0 d| |]|]; try discriminate. inversion H; reflexivity.
-  Qed.
-
-  (* the only way the map grows in an assignment: an alias `n = y` for the target n itself *)
-  Lemma imps_handle_assignment : forall sc flow inh chain t ann expr aug s m,
-      lookup m (imps (handle_assignment sc flow inh chain t ann expr aug s)) <> None ->
-      lookup m (imps s) <> None \/ (t = TName m /\ exists y, expr = Some (RName y)).
-  Proof.
-    intros sc flow inh chain t ann expr aug s m H. destruct t as [n|ns|a]; cbn [handle_assignment] in H; auto.
-    assert (Hal : forall s', aliasing chain n expr s = Some s' -> lookup m (imps s') <> None ->
-                             lookup m (imps s) <> None \/ (TName n = TName m /\ exists y, expr = Some (RName y))).
-    { intros s' Ha Hm. unfold aliasing in Ha. destruct (lookup n (contents s)); [discriminate|].
-      destruct expr as [[| y | |]|]; try discriminate. inversion Ha; subst s'. cbn in Hm.
-      destruct (text_eqb m n) eqn:E; auto. apply text_eqb_eq in E. subst. right. eauto. }
-    destruct sc.
-    - destruct (aliasing chain n expr s) as [s'|] eqn:Ea; [eapply Hal; eauto|].
-      rewrite imps_handle_module_var in H. auto.
-    - destruct (if aug then None else oldschool n expr s) as [s'|] eqn:Eo.
-      + destruct aug; [discriminate|]. rewrite (imps_oldschool _ _ _ _ Eo) in H. auto.
-      + destruct (aliasing chain n expr s) as [s'|] eqn:Ea; [eapply Hal; eauto|].
-        rewrite imps_handle_class_var in H. auto.
-  Qed.
-
-  Lemma fold_imps : forall (f : stmt -> st -> st) body,
-      Forall (fun y => forall s, imps (f y s) = imps s) body ->
-      forall s, imps (fold_left (fun s y => f y s) body s) = imps s.
-  Proof.
-    intros f body HF s. apply (fold_preserves (fun s' => imps s' = imps s) f body); auto.
-    eapply Forall_impl; [|exact HF]. cbn. intros y Hy s0 Hs0. rewrite Hy. exact Hs0.
-  Qed.
-
-  Lemma fwalk_imps : forall x inc inh s, imps (fwalk_stmt clean inc inh x s) = imps s.
-  Proof.
-    intro x. induction x as [nm ds a body IH|nm bs body IH|ts r|t an r|t r|d|t b o IHb IHo|b h o f IHb IHh IHo IHf|b IHb|t b o IHb IHo|b o IHb IHo|ns|]
-      using stmt_ind'; intros inc inh s; cbn [fwalk_stmt]; auto.
-    - revert s. induction ts as [|t ts IHts]; cbn; intro s; auto. rewrite IHts. destruct t; auto. apply imps_hiv.
-    - destruct t; auto. apply imps_hiv.
-    - apply imps_attach_doc.
-    - destruct t; auto; apply (fold_imps (fwalk_stmt clean inc inh)); eapply Forall_impl; [|exact IHb| |exact IHb]; cbn; auto.
-    - apply (fold_imps (fwalk_stmt clean inc inh)); eapply Forall_impl; [|exact IHb]; cbn; auto.
-    - apply (fold_imps (fwalk_stmt clean inc inh)); eapply Forall_impl; [|exact IHb]; cbn; auto.
-    - apply (fold_imps (fwalk_stmt clean inc inh)); eapply Forall_impl; [|exact IHb]; cbn; auto.
-    - apply (fold_imps (fwalk_stmt clean inc inh)); eapply Forall_impl; [|exact IHb]; cbn; auto.
-  Qed.
-
-  (* a suite that binds nothing, generically: whatever attach_doc preserves is preserved *)
-  Lemma walk_nonbinding_gen : forall (Q : st -> Prop), (forall d s, Q s -> Q (attach_doc clean d s)) ->
-      forall x, nonbinding x = true -> forall sc flow inh outer s, Q s -> Q (walk_stmt clean x sc flow inh outer s).
-  Proof.
-    intros Q HQ x. induction x as [nm ds a body IH|nm bs body IH|ts r|t an r|t r|d|t b o IHb IHo|b h o f IHb IHh IHo IHf|b IHb|t b o IHb IHo|b o IHb IHo|ns|]
-      using stmt_ind'; intros Hnb sc flow inh outer s HS; cbn in Hnb; try discriminate; cbn [walk_stmt]; auto.
-    - destruct t; auto; apply andb_true_iff in Hnb; destruct Hnb as [Hb Ho];
-        apply (fold_preserves Q (fun y st => walk_stmt clean y sc _ inh outer st)); auto;
-        rewrite forallb_forall in Hb; apply Forall_forall; intros y Hy s0 Hs0; rewrite Forall_forall in IHb; apply IHb; auto.
-    - repeat (apply andb_true_iff in Hnb; destruct Hnb as [Hnb ?]).
-      apply (fold_preserves Q (fun y st => walk_stmt clean y sc _ inh outer st)); auto.
-      rewrite forallb_forall in Hnb; apply Forall_forall; intros y Hy s0 Hs0; rewrite Forall_forall in IHb; apply IHb; auto.
-    - apply (fold_preserves Q (fun y st => walk_stmt clean y sc _ inh outer st)); auto.
-      rewrite forallb_forall in Hnb; apply Forall_forall; intros y Hy s0 Hs0; rewrite Forall_forall in IHb; apply IHb; auto.
-    - apply andb_true_iff in Hnb; destruct Hnb as [Hb Ho].
-      apply (fold_preserves Q (fun y st => walk_stmt clean y sc _ inh outer st)); auto.
-      rewrite forallb_forall in Hb; apply Forall_forall; intros y Hy s0 Hs0; rewrite Forall_forall in IHb; apply IHb; auto.
-  Qed.
-
-  Definition imps_step_ok (x : stmt) : Prop :=
-    forall sc flow inh outer s e e',
-      imps_ok s e -> py_stmt strict x (pscope_of sc) e = Some e' -> imps_ok (walk_stmt clean x sc flow inh outer s) e'.
-
-  Lemma imps_suite : forall body, Forall imps_step_ok body ->
-      forall sc flow inh outer s e e',
-        imps_ok s e -> ofold (fun y e' => py_stmt strict y (pscope_of sc) e') body e = Some e' ->
-        imps_ok (fold_left (fun st y => walk_stmt clean y sc flow inh outer st) body s) e'.
-  Proof.
-    intros body HF. induction HF as [|y body Hy _ IH]; cbn [fold_left ofold]; intros sc flow inh outer s e e' HI Hpy.
-    - inversion Hpy; subst. exact HI.
-    - destruct (py_stmt strict y (pscope_of sc) e) as [e1|] eqn:E1; [|discriminate]. eapply IH; eauto.
-  Qed.
-
-  Lemma ofold_bind_data_mono : forall ns e e',
-      ofold (bind_unpacked strict) ns e = Some e' -> forall n, plookup n e <> None -> plookup n e' <> None.
-  Proof.
-    induction ns as [|m ns IH]; cbn; intros e e' H n Hn; [inversion H; subst; auto|].
-    destruct (bind_unpacked strict m e) as [e1|] eqn:E; [|discriminate]. eapply IH; eauto.
-    apply bind_unpacked_inv in E. destruct E as [E _].
-    unfold bind_data in E. destruct (mem m py_meta_names); [discriminate|].
-    destruct (plookup m e) as [[| | |]|]; inversion E; subst; apply plookup_bind_mono; auto.
-  Qed.
-
-  Lemma bind_target_mono : forall v t e e', bind_target strict v t e = Some e' -> forall n, plookup n e <> None -> plookup n e' <> None.
-  Proof.
-    intros v t e e' H n Hn. destruct t as [m|ns|a]; cbn in H; [|eapply ofold_bind_data_mono; eauto|discriminate].
-    assert (Hb : forall w, bind_data m w e = Some e' -> plookup n e' <> None).
-    { intros w E. unfold bind_data in E. destruct (mem m py_meta_names); [discriminate|].
-      destruct (plookup m e) as [[| | |]|]; inversion E; subst; apply plookup_bind_mono; auto. }
-    destruct v; eauto. inversion H; subst. apply plookup_bind_mono; auto.
-  Qed.
-
-  Lemma bind_aux_mono : forall m e e', bind_aux m e = Some e' -> (forall n, plookup n e <> None -> plookup n e' <> None) /\ plookup m e' <> None.
-  Proof.
-    intros m e e' H. unfold bind_aux in H.
-    assert (e' = bind m VAux e) by (destruct (plookup m e) as [[| | |]|]; inversion H; reflexivity). subst. split.
-    - intros; apply plookup_bind_mono; auto.
-    - rewrite plookup_bind, text_eqb_refl. discriminate.
-  Qed.
-
-  Theorem imps_step : forall x, imps_step_ok x.
-  Proof.
-    intro x. induction x as [nm ds a body IH|nm bs body IH|ts r|t an r|t r|d|t b o IHb IHo|b h o f IHb IHh IHo IHf|b IHb|t b o IHb IHo|b o IHb IHo|ns|]
-      using stmt_ind'; intros sc flow inh outer s e e' HI Hpy.
-    - (* Def *)
-      cbn [py_stmt] in Hpy. destruct (def_wrap (pscope_of sc) ds WNone); [|discriminate].
-      inversion Hpy; subst.
-      eapply imps_ok_mono; [|intros; apply plookup_bind_mono; eassumption|exact HI].
-      cbn [walk_stmt]. destruct (f_prop _); cbn; [apply imps_add_obj|].
-      unfold fwalk_body. rewrite (fold_imps (fwalk_stmt clean _ inh)); [cbn; apply imps_add_obj|].
-      apply Forall_forall. intros; apply fwalk_imps.
-    - (* Class *)
-      cbn [py_stmt] in Hpy. destruct (bases_exc e bs); [|discriminate].
-      destruct (ofold (fun y e'0 => py_stmt strict y PClass e'0) body []); [|discriminate]. inversion Hpy; subst.
-      eapply imps_ok_mono; [|intros; apply plookup_bind_mono; eassumption|exact HI].
-      cbn [walk_stmt]. cbn. apply imps_add_obj.
-    - (* Assign *)
-      cbn [py_stmt walk_stmt] in *. destruct (assign_value (pscope_of sc) e ts r) as [v|] eqn:Ev; [|discriminate].
-      assert (Hr : forall y, Some r <> Some (RName y)).
-      { intros y Hy. inversion Hy; subst. cbn in Ev. discriminate. }
-      clear Ev. revert s e HI Hpy. induction ts as [|t ts IHts]; cbn [fold_left ofold]; intros s e HI Hpy.
-      + inversion Hpy; subst; exact HI.
-      + destruct (bind_target strict v t e) as [e1|] eqn:Eb; [|discriminate]. eapply IHts; [|exact Hpy].
-        intros n Hn. eapply bind_target_mono; [exact Eb|]. apply HI.
-        destruct t as [m|ms|a0].
-        * destruct (imps_handle_assignment _ _ _ _ _ _ _ _ _ _ Hn) as [?|[_ [y Hy]]]; auto. exfalso. eapply Hr; eauto.
-        * clear - Hn. revert s Hn. induction ms as [|m ms IHm]; cbn [fold_left]; intros s Hn; auto.
-          apply IHm in Hn. destruct (imps_handle_assignment _ _ _ _ _ _ _ _ _ _ Hn) as [?|[_ [y Hy]]]; auto. discriminate.
-        * exact Hn.
-    - (* AnnAssign *)
-      cbn [py_stmt walk_stmt] in *. destruct t as [n| |]; try discriminate. destruct r as [r|]; [|discriminate].
-      destruct (assign_value (pscope_of sc) e [TName n] r) as [v|] eqn:Ev; [|discriminate].
-      intros m Hm. eapply bind_target_mono; [exact Hpy|]. apply HI.
-      destruct (imps_handle_assignment _ _ _ _ _ _ _ _ _ _ Hm) as [?|[_ [y Hy]]]; auto.
-      inversion Hy; subst. cbn in Ev. discriminate.
-    - (* AugAssign *)
-      cbn [py_stmt walk_stmt] in *. destruct t as [n| |]; try discriminate.
-      destruct (mem n py_meta_names); [discriminate|]. destruct (plookup n e) as [[| |w|]|] eqn:Ep; try discriminate.
-      inversion Hpy; subst. intros m Hm.
-      destruct (imps_handle_assignment _ _ _ _ _ _ _ _ _ _ Hm) as [H1|[H1 _]].
-      + apply plookup_bind_mono. auto.
-      + inversion H1; subst. rewrite plookup_bind, text_eqb_refl. discriminate.
-    - (* ExprStr *) cbn in Hpy. inversion Hpy; subst. cbn [walk_stmt]. eapply imps_ok_mono; [apply imps_attach_doc| |exact HI]. auto.
-    - (* If *)
-      destruct t; cbn [py_stmt walk_stmt] in *.
-      + destruct (nonbinding_suite o); inversion Hpy; subst. exact HI.
-      + destruct (nonbinding_suite o); [|discriminate]. eapply imps_suite; eauto.
-      + destruct (nonbinding_suite b) eqn:Enb; [|discriminate]. destruct (nonbinding_suite o); inversion Hpy; subst.
-        apply (fold_preserves (fun s => imps_ok s e') (fun y st => walk_stmt clean y sc _ inh outer st)); auto.
-        unfold nonbinding_suite in Enb. rewrite forallb_forall in Enb. apply Forall_forall. intros y Hy s0 Hs0.
-        apply (walk_nonbinding_gen (fun s => imps_ok s e')); auto.
-        intros d0 s1 H1. eapply imps_ok_mono; [apply imps_attach_doc| |exact H1]. auto.
-    - (* Try *)
-      cbn [py_stmt walk_stmt] in *. destruct (nonbinding_suite h && nonbinding_suite o && nonbinding_suite f); [|discriminate].
-      eapply imps_suite; eauto.
-    - (* With *) cbn [py_stmt walk_stmt] in *. eapply imps_suite; eauto.
-    - (* For *)
-      cbn [py_stmt walk_stmt] in *. destruct (nonbinding_suite o); [|discriminate].
-      destruct (bind_aux t e) as [e1|] eqn:Ea; [|discriminate].
-      eapply imps_suite; [exact IHb| |exact Hpy]. intros n Hn. apply (proj1 (bind_aux_mono _ _ _ Ea)). auto.
-    - (* While *)
-      cbn [py_stmt walk_stmt] in *. destruct (nonbinding_suite o); [|discriminate]. eapply imps_suite; eauto.
-    - (* Import *)
-      cbn [py_stmt walk_stmt] in *. revert s e HI Hpy. induction ns as [|n ns IHn]; cbn; intros s e HI Hpy.
-      + inversion Hpy; subst; exact HI.
-      + destruct (bind_aux n e) as [e1|] eqn:Ea; [|discriminate]. eapply IHn; [|exact Hpy].
-        destruct (bind_aux_mono _ _ _ Ea) as [Hm Hn]. intros m Hl. cbn in Hl.
-        destruct (text_eqb m n) eqn:E; [apply text_eqb_eq in E; subst; exact Hn|auto].
-    - (* Other *) cbn in Hpy. inversion Hpy; subst. exact HI.
-  Qed.
-
-  (* ================================================================ exception classes (module level) *)
+  (* ================================================================ exception classes and inherited members *)
   Lemma mem_forall : forall l1 l2, forallb (fun x => mem x l2) l1 = true -> forall b, mem b l1 = true -> mem b l2 = true.
   Proof.
     intros l1 l2 H b Hb. rewrite forallb_forall in H. apply H. apply mem_In. exact Hb.
@@ -1247,180 +1119,522 @@ Section Sim.
       destruct (mem b std_lib_exceptions) eqn:E2; auto. apply std_table_sound in E2. congruence.
   Qed.
 
-  Lemma base_exc_agree : forall s e b x,
-      agree_ns ScModule (contents s) e -> imps_ok s e ->
-      base_exc_py e b = Some x -> base_exc (resolve [(contents s, imps s)] b) = x.
+
+  Lemma lookup_summary : forall c n,
+      lookup n (summary_of c) = match lookup n c with Some (OAttr k _ _ _) => Some (SAttr k) | Some _ => Some SNonAttr | None => None end.
   Proof.
-    intros s e b x HA HI H. inversion HA as [? ? ? R1 R2 R3 R4]; subst. unfold base_exc_py in H. cbn [resolve].
-    destruct (plookup b e) as [v|] eqn:Ep.
-    - destruct v as [| x' d' ns | |]; try discriminate. inversion H; subst x'.
-      assert (Hd : pdef b e = true) by (unfold pdef; rewrite Ep; reflexivity).
-      specialize (R2 b Hd). destruct (lookup b (contents s)) as [o|] eqn:E; [|congruence].
-      specialize (R4 _ _ _ E Ep eq_refl). inversion R4; subst. cbn. auto.
-    - assert (E : lookup b (contents s) = None).
-      { destruct (lookup b (contents s)) as [o|] eqn:E; auto. destruct (R3 _ _ E) as [Hd|[Hsc _]]; [|discriminate].
-        unfold pdef in Hd. rewrite Ep in Hd. discriminate. }
-      rewrite E.
-      assert (Ei : lookup b (imps s) = None).
-      { destruct (lookup b (imps s)) eqn:Ei; auto. exfalso. apply (HI b); [rewrite Ei; discriminate|exact Ep]. }
-      rewrite Ei. cbn. apply builtin_exc_agree; auto.
+    induction c as [|[m o] c IH]; cbn; intro n; auto. destruct (text_eqb n m); auto. destruct o; reflexivity.
   Qed.
 
-  Lemma bases_exc_agree : forall s e bs x,
-      agree_ns ScModule (contents s) e -> imps_ok s e ->
-      bases_exc e bs = Some x -> existsb base_exc (map (resolve [(contents s, imps s)]) bs) = x.
+  Lemma pfirst_app : forall n m1 m2, pfirst n (m1 ++ m2) = match pfirst n m1 with Some b => Some b | None => pfirst n m2 end.
   Proof.
-    intros s e bs. induction bs as [|b bs IH]; cbn [bases_exc map existsb]; intros x HA HI H.
-    - inversion H; reflexivity.
-    - destruct (base_exc_py e b) as [x1|] eqn:E1; [|discriminate].
-      destruct (bases_exc e bs) as [x2|] eqn:E2; [|discriminate]. inversion H; subst.
-      rewrite (base_exc_agree _ _ _ _ HA HI E1). rewrite (IH _ HA HI eq_refl). reflexivity.
+    induction m1 as [|e m1 IH]; cbn; intros m2; auto.
+    destruct (plookup n e) as [v|]; auto. destruct (is_aux v); auto.
+  Qed.
+
+  Lemma mem_rel_nil : mem_rel [] [].
+  Proof. split; intros n H; [discriminate|reflexivity]. Qed.
+
+  Lemma mem_rel_app : forall l1 m1 l2 m2, mem_rel l1 m1 -> mem_rel l2 m2 -> mem_rel (l1 ++ l2) (m1 ++ m2).
+  Proof.
+    intros l1 m1 l2 m2 [A1 A2] [B1 B2]. split; intros n H; rewrite lookup_app in H; rewrite pfirst_app.
+    - destruct (lookup n l1) as [x|] eqn:E.
+      + inversion H; subst. rewrite (A1 _ E). reflexivity.
+      + rewrite (A2 _ E). auto.
+    - destruct (lookup n l1) as [x|] eqn:E; [discriminate|]. rewrite (A2 _ E). auto.
+  Qed.
+
+  (* a class against its namespace, then its bases *)
+  Lemma mem_rel_class : forall c ns ih mro,
+      agree_ns ScClass c ns -> mem_rel ih mro -> mem_rel (summary_of c ++ ih) (ns :: mro).
+  Proof.
+    intros c ns ih mro HA [B1 B2]. inversion HA as [? ? ? R1 R2 R3 R4]; subst.
+    assert (Hnone : forall n, lookup n c = None -> pfirst n (ns :: mro) = pfirst n mro).
+    { intros n E. cbn. destruct (plookup n ns) as [v|] eqn:Ep; auto. destruct (is_aux v) eqn:Ea; auto.
+      exfalso. apply (R2 n); auto. unfold pdef. rewrite Ep, Ea. reflexivity. }
+    split; intros n H; rewrite lookup_app, lookup_summary in H.
+    - destruct (lookup n c) as [o|] eqn:E.
+      + destruct o as [k a d| |]; inversion H.
+        * destruct (R3 _ _ E) as [Hd|[_ Hi]]; [|discriminate]. unfold pdef in Hd.
+          destruct (plookup n ns) as [v|] eqn:Ep; [|discriminate].
+          assert (Ha : is_aux v = false) by (destruct (is_aux v); [discriminate|reflexivity]).
+          specialize (R4 _ _ _ E Ep Ha). inversion R4; subst. cbn. rewrite Ep. cbn.
+          match goal with Hk : fkind_of ScClass ?w = Some _ |- _ => destruct w; try discriminate Hk; reflexivity end.
+        * destruct (R3 _ _ E) as [Hd|[_ Hi]]; [|discriminate]. unfold pdef in Hd.
+          destruct (plookup n ns) as [v|] eqn:Ep; [|discriminate].
+          assert (Ha : is_aux v = false) by (destruct (is_aux v); [discriminate|reflexivity]).
+          specialize (R4 _ _ _ E Ep Ha). inversion R4; subst. cbn. rewrite Ep. reflexivity.
+      + rewrite (Hnone _ E). auto.
+    - destruct (lookup n c) as [o|] eqn:E; [destruct o; discriminate|]. rewrite (Hnone _ E). auto.
+  Qed.
+
+  Lemma lookup_members_conv : forall ms n,
+      lookup n (members_conv ms) = option_map summ_of_msum (alookup n ms).
+  Proof. induction ms as [|[m x] ms IH]; cbn; intro n; auto. destruct (text_eqb n m); auto. Qed.
+
+  Lemma plookup_members_env : forall ms n,
+      plookup n (members_env ms) = option_map (fun x => match x with MNonAttr => VFun false WNone None | MAttr _ => VData None end) (alookup n ms).
+  Proof. unfold plookup. induction ms as [|[m x] ms IH]; cbn; intro n; auto. destruct (text_eqb n m); auto. Qed.
+
+  Lemma mem_rel_members : forall ms, mem_rel (members_conv ms) [members_env ms].
+  Proof.
+    intro ms. split; intros n H; rewrite lookup_members_conv in H; cbn; rewrite plookup_members_env;
+      destruct (alookup n ms) as [[|[|]]|]; cbn in *; try discriminate; reflexivity.
+  Qed.
+
+  (* ================================================================ enclosing scopes *)
+  (* an enclosing scope, as the documentation side keeps it (contents and import map when the class statement was
+     entered, with the class itself already registered) against Python's frame *)
+  Definition frame_rel (d : contents_t * imps_t) (f : frame) : Prop :=
+    exists sc c0, agree_ns sc c0 (f_env f) /\ iv_ok (f_ivs f) c0 (f_env f) /\ imps_rel (snd d) (f_env f) /\
+                  (forall m, m <> f_pending f -> lookup m (fst d) = lookup m c0).
+  Definition chain_rel (outer : list (contents_t * imps_t)) (fr : list frame) : Prop := Forall2 frame_rel outer fr.
+
+  (* what the name lookup of the subset finds, against pydoctor's expandName *)
+  Definition found_rel (r : nres) (f : found) (b : name) : Prop :=
+    match r with
+    | NReject => True
+    | NUnbound => f = FExt b
+    | NVal v => if is_aux v
+                then match v with VAux IOther => True | VAux i => f = FImp (impval_of i) | _ => True end
+                else exists sc o, f = FObj o /\ agree_obj sc o v
+    end.
+
+  (* one scope: either the lookup is decided here, or both sides go on *)
+  Lemma scope_lookup : forall sc c0 im e ivs b,
+      agree_ns sc c0 e -> iv_ok ivs c0 e -> imps_rel im e ->
+      match own_lookup e ivs b with
+      | NReject => True
+      | NUnbound => lookup b c0 = None /\ lookup b im = None
+      | NVal v => if is_aux v
+                  then lookup b c0 = None /\ match v with VAux IOther => True | VAux i => lookup b im = Some (impval_of i) | _ => True end
+                  else exists o, lookup b c0 = Some o /\ agree_obj sc o v
+      end.
+  Proof.
+    intros sc c0 im e ivs b HA HI [M1 M2]. inversion HA as [? ? ? R1 R2 R3 R4]; subst. unfold own_lookup.
+    assert (Hnone : pdef b e = false -> mem b ivs = false -> lookup b c0 = None).
+    { intros Hd Hm. destruct (lookup b c0) as [o|] eqn:E; auto. destruct (HI _ _ E) as [?|Hin]; [congruence|].
+      apply mem_In in Hin. congruence. }
+    destruct (plookup b e) as [v|] eqn:Ep.
+    - destruct (is_aux v) eqn:Ea; cbn [andb].
+      + destruct (mem b ivs) eqn:Em; [exact I|]. rewrite Ea. split.
+        * apply Hnone; auto. unfold pdef. rewrite Ep, Ea. reflexivity.
+        * destruct v as [| | |i]; try discriminate. destruct i; auto; apply M2; auto; discriminate.
+      + rewrite Ea. assert (Hd : pdef b e = true) by (unfold pdef; rewrite Ep, Ea; reflexivity).
+        specialize (R2 b Hd). destruct (lookup b c0) as [o|] eqn:E; [|congruence]. eauto.
+    - destruct (mem b ivs) eqn:Em; [exact I|]. split.
+      + apply Hnone; auto. unfold pdef. rewrite Ep. reflexivity.
+      + destruct (lookup b im) eqn:Ei; auto. exfalso. apply (M1 b); [rewrite Ei; discriminate|exact Ep].
+  Qed.
+
+  Lemma outer_find : forall outer fr b, chain_rel outer fr -> found_rel (outer_lookup fr b) (find_name outer b) b.
+  Proof.
+    intros outer fr b H. induction H as [|[c im] f outer fr [sc [c0 [HA [HI [HM Hl]]]]] Hrest IH]; cbn [outer_lookup find_name].
+    - reflexivity.
+    - destruct (text_eqb b (f_pending f)) eqn:Ep; [exact I|].
+      assert (Hb : b <> f_pending f) by (apply text_eqb_neq; exact Ep).
+      cbn in Hl. rewrite (Hl b Hb).
+      pose proof (scope_lookup sc c0 im (f_env f) (f_ivs f) b HA HI HM) as HS.
+      destruct fr as [|f2 fr2].
+      + (* the module *)
+        inversion Hrest; subst. cbn [find_name] in *.
+        destruct (own_lookup (f_env f) (f_ivs f) b) as [| |v]; cbn.
+        * exact I.
+        * destruct HS as [E1 E2]. rewrite E1, E2. reflexivity.
+        * destruct (is_aux v) eqn:Ea.
+          -- destruct HS as [E1 E2]. rewrite E1. destruct v as [| | |i]; auto. destruct i; auto; rewrite E2; reflexivity.
+          -- destruct HS as [o [E1 Ho]]. rewrite E1. eauto.
+      + (* an enclosing class *)
+        unfold own_lookup in HS.
+        destruct (plookup b (f_env f)) as [v|] eqn:Epl; cbn [orb].
+        * rewrite orb_true_r. exact I.
+        * destruct (mem b (f_ivs f)) eqn:Em; cbn [orb]; [exact I|].
+          destruct HS as [E1 E2]. rewrite E1, E2. exact IH.
+  Qed.
+
+  Lemma name_find : forall sc ivs s e outer fr b,
+      St sc ivs s e -> chain_rel outer fr ->
+      found_rel (name_lookup e ivs fr b) (find_name ((contents s, imps s) :: outer) b) b.
+  Proof.
+    intros sc ivs s e outer fr b HS HC. unfold name_lookup. cbn [find_name].
+    pose proof (scope_lookup sc (contents s) (imps s) e ivs b (st_agree _ _ _ _ HS) (st_iv _ _ _ _ HS) (st_imps _ _ _ _ HS)) as H.
+    destruct (own_lookup e ivs b) as [| |v]; cbn.
+    - exact I.
+    - destruct H as [E1 E2]. rewrite E1, E2. apply outer_find. exact HC.
+    - destruct (is_aux v) eqn:Ea.
+      + destruct H as [E1 E2]. rewrite E1. destruct v as [| | |i]; auto. destruct i; auto; rewrite E2; reflexivity.
+      + destruct H as [o [E1 Ho]]. rewrite E1. eauto.
+  Qed.
+
+  (* ---- a base class expression: exception flag and inherited members agree *)
+  Lemma lookup_classes_conv : forall cls x,
+      lookup x (map (fun c : name * (bool * members_t) => (fst c, (fst (snd c), members_conv (snd (snd c))))) cls)
+      = option_map (fun p : bool * members_t => (fst p, members_conv (snd p))) (alookup x cls).
+  Proof. induction cls as [|[m [b ms]] cls IH]; cbn; intro x; auto. destruct (text_eqb x m); auto. Qed.
+
+  Lemma base_agree : forall sc ivs s e outer fr b x envs,
+      St sc ivs s e -> chain_rel outer fr -> base_info e ivs fr b = Some (x, envs) ->
+      base_exc (resolve ((contents s, imps s) :: outer) b) = x /\
+      mem_rel (base_inh (resolve ((contents s, imps s) :: outer) b)) envs.
+  Proof.
+    intros sc ivs s e outer fr b x envs HS HC H. unfold base_info in H.
+    destruct b as [|y [|z [|? ?]]]; try discriminate.
+    - (* a name *)
+      pose proof (name_find sc ivs s e outer fr y HS HC) as HF. unfold resolve.
+      destruct (name_lookup e ivs fr y) as [| |v]; [discriminate| |]; unfold found_rel in HF.
+      + rewrite HF. destruct (py_builtin_class y) as [xb|] eqn:Eb; [|discriminate]. inversion H; subst.
+        cbn. split; [apply builtin_exc_agree; exact Eb|apply mem_rel_nil].
+      + destruct v as [| xv dv ns mro ivs0 | |i]; cbn in H; try discriminate.
+        * inversion H; subst. cbn [is_aux] in HF. destruct HF as [sc' [o [Ef Ho]]]. rewrite Ef. inversion Ho; subst.
+          cbn. split; [reflexivity|]. apply mem_rel_class; assumption.
+        * destruct i as [|xi ms|cls]; try discriminate. inversion H; subst. cbn [is_aux] in HF. rewrite HF. cbn.
+          split; [reflexivity|apply mem_rel_members].
+    - (* module.Name *)
+      pose proof (name_find sc ivs s e outer fr y HS HC) as HF. unfold resolve.
+      destruct (name_lookup e ivs fr y) as [| |v]; try discriminate.
+      destruct v as [| | |i]; try discriminate. destruct i as [| |cls]; try discriminate.
+      unfold found_rel in HF. cbn [is_aux] in HF. rewrite HF. cbn [impval_of]. rewrite lookup_classes_conv.
+      destruct (alookup z cls) as [[xi ms]|]; [|discriminate]. inversion H; subst. cbn.
+      split; [reflexivity|apply mem_rel_members].
+  Qed.
+
+  Lemma bases_agree : forall sc ivs s e outer fr bs x envs,
+      St sc ivs s e -> chain_rel outer fr -> bases_info e ivs fr bs = Some (x, envs) ->
+      existsb base_exc (map (resolve ((contents s, imps s) :: outer)) bs) = x /\
+      mem_rel (flat_map base_inh (map (resolve ((contents s, imps s) :: outer)) bs)) envs.
+  Proof.
+    intros sc ivs s e outer fr bs. induction bs as [|b bs IH]; cbn [bases_info map existsb flat_map]; intros x envs HS HC H.
+    - inversion H; subst. split; [reflexivity|apply mem_rel_nil].
+    - destruct (base_info e ivs fr b) as [[x1 m1]|] eqn:E1; [|discriminate].
+      destruct (bases_info e ivs fr bs) as [[x2 m2]|] eqn:E2; [|discriminate]. inversion H; subst.
+      destruct (base_agree _ _ _ _ _ _ _ _ _ HS HC E1) as [A1 A2].
+      destruct (IH _ _ HS HC eq_refl) as [B1 B2]. rewrite A1, B1. split; [reflexivity|apply mem_rel_app; assumption].
+  Qed.
+
+  (* ================================================================ every instance variable gets documented *)
+  Definition present (n : name) (s : st) : Prop := lookup n (contents s) <> None.
+  Definition keeps (f : st -> st) : Prop := forall n s, present n s -> present n (f s).
+
+  Lemma lookup_add_obj : forall n m o s,
+      lookup n (contents (add_obj m o s)) = if text_eqb n m then Some o else lookup n (contents s).
+  Proof.
+    intros n m o s. unfold add_obj. destruct (lookup m (contents s)) eqn:E; cbn.
+    - rewrite lookup_replace, E. reflexivity.
+    - rewrite lookup_app. cbn. destruct (text_eqb n m) eqn:Enm.
+      + apply text_eqb_eq in Enm. subst. rewrite E. reflexivity.
+      + destruct (lookup n (contents s)); reflexivity.
+  Qed.
+
+  Lemma present_upd_attr : forall n m f s, present n (upd_attr m f s) <-> present n s.
+  Proof.
+    intros n m f s. unfold present, upd_attr. destruct (lookup m (contents s)) as [[| |k d a v]|] eqn:E; try tauto.
+    cbn. rewrite lookup_replace, E. destruct (text_eqb n m) eqn:Enm; [|tauto].
+    apply text_eqb_eq in Enm. subst. rewrite E. split; discriminate.
+  Qed.
+
+  Lemma keeps_add_obj : forall m o, keeps (add_obj m o).
+  Proof. intros m o n s H. unfold present in *. rewrite lookup_add_obj. destruct (text_eqb n m); [discriminate|exact H]. Qed.
+
+  Lemma keeps_attach_doc : forall d, keeps (attach_doc clean d).
+  Proof. intros d n s H. unfold attach_doc. destruct (cur s); auto. apply (present_upd_attr n). exact H. Qed.
+
+  Lemma present_hiv : forall inc inh a ann expr s n,
+      present n s \/ (inc = true /\ n = a /\ lookup a inh <> Some SNonAttr) -> present n (handle_instance_var inc inh a ann expr s).
+  Proof.
+    intros inc inh a ann expr s n H. unfold handle_instance_var.
+    destruct inc; cbn [negb]; [|destruct H as [?|[? _]]; [auto|discriminate]].
+    destruct (maybe_attribute inh (contents s) a) eqn:Em; cbn [negb].
+    - destruct (lookup a (contents s)) as [o|] eqn:E.
+      + assert (Hp : present n s).
+        { destruct H as [?|[_ [? _]]]; auto. subst. unfold present. rewrite E. discriminate. }
+        destruct o as [| |[] d an v]; auto; apply (present_upd_attr n); exact Hp.
+      + apply (present_upd_attr n). unfold present. rewrite lookup_add_obj.
+        destruct (text_eqb n a) eqn:Ena; [discriminate|]. destruct H as [?|[_ [? _]]]; auto.
+        subst. rewrite text_eqb_refl in Ena. discriminate.
+    - destruct H as [?|[_ [? Hi]]]; auto. subst. unfold maybe_attribute in Em. unfold present.
+      destruct (lookup a (contents s)); [discriminate|]. destruct (lookup a inh) as [[|]|]; try discriminate. congruence.
+  Qed.
+
+  Lemma fold_present : forall (f : stmt -> st -> st) (iv : stmt -> list name) (P : name -> Prop) body,
+      Forall (fun y => keeps (f y) /\ forall n s, In n (iv y) -> P n -> present n (f y s)) body ->
+      keeps (fun s => fold_left (fun s y => f y s) body s) /\
+      forall n s, In n (flat_map iv body) -> P n -> present n (fold_left (fun s y => f y s) body s).
+  Proof.
+    intros f iv P body HF. induction HF as [|y body [Hk Hp] _ [IHk IHp]]; cbn [fold_left flat_map].
+    - split; [intros n s H; exact H|intros n s []].
+    - split.
+      + intros n s H. apply IHk. apply Hk. exact H.
+      + intros n s Hin HP. apply in_app_or in Hin. destruct Hin as [Hin|Hin]; [apply IHk; apply Hp; auto|apply IHp; auto].
+  Qed.
+
+  Lemma fwalk_present : forall x inh,
+      keeps (fwalk_stmt clean true inh x) /\
+      forall n s, In n (method_ivars x) -> lookup n inh <> Some SNonAttr -> present n (fwalk_stmt clean true inh x s).
+  Proof.
+    intro x. induction x as [nm ds a body IH|nm bs cds body IH|ts r|t an r|t r|d|t b o IHb IHo|b h o f IHb IHh IHo IHf|b IHb|t b o IHb IHo|b o IHb IHo|ns|]
+      using stmt_ind'; intro inh; cbn [fwalk_stmt method_ivars];
+      try (split; [intros n s H; exact H|intros n s []]).
+    - (* Assign *)
+      induction ts as [|t ts [IHk IHp]]; cbn [fold_left flat_map]; [split; [intros n s H; exact H|intros n s []]|].
+      assert (Hk1 : keeps (fun s => match t with TSelf a => handle_instance_var true inh a None (Some r) s | _ => s end)).
+      { intros n s H. destruct t as [m|ms|a0]; auto. apply present_hiv. auto. }
+      split.
+      + intros n s H. apply IHk. apply Hk1. exact H.
+      + intros n s Hin Hi. apply in_app_or in Hin. destruct Hin as [Hin|Hin]; [|apply IHp; auto].
+        apply IHk. destruct t as [m|ms|a0]; cbn in Hin; try contradiction. destruct Hin as [?|[]]; subst.
+        apply present_hiv. right. auto.
+    - (* AnnAssign *)
+      destruct t as [m|ms|a0]; try (split; [intros n s H; exact H|intros n s []]).
+      split; [intros n s H; apply present_hiv; auto|]. intros n s [?|[]] Hi; subst. apply present_hiv. right. auto.
+    - split; [apply keeps_attach_doc|intros n s []].
+    - destruct t; try (split; [intros n s H; exact H|intros n s []]);
+        apply (fold_present (fwalk_stmt clean true inh) method_ivars (fun n => lookup n inh <> Some SNonAttr));
+        eapply Forall_impl; [|exact IHb| |exact IHb]; cbn; intros y Hy; apply Hy.
+    - apply (fold_present (fwalk_stmt clean true inh) method_ivars (fun n => lookup n inh <> Some SNonAttr)).
+      eapply Forall_impl; [|exact IHb]; cbn; intros y Hy; apply Hy.
+    - apply (fold_present (fwalk_stmt clean true inh) method_ivars (fun n => lookup n inh <> Some SNonAttr)).
+      eapply Forall_impl; [|exact IHb]; cbn; intros y Hy; apply Hy.
+    - apply (fold_present (fwalk_stmt clean true inh) method_ivars (fun n => lookup n inh <> Some SNonAttr)).
+      eapply Forall_impl; [|exact IHb]; cbn; intros y Hy; apply Hy.
+    - apply (fold_present (fwalk_stmt clean true inh) method_ivars (fun n => lookup n inh <> Some SNonAttr)).
+      eapply Forall_impl; [|exact IHb]; cbn; intros y Hy; apply Hy.
+  Qed.
+
+  Lemma keeps_handle_assignment : forall sc flow inh chain t ann expr aug, keeps (handle_assignment sc flow inh chain t ann expr aug).
+  Proof.
+    intros sc flow inh chain t ann expr aug n s H. destruct t as [m| |]; cbn [handle_assignment]; auto.
+    assert (Hv : forall default s0, present n s0 -> present n (handle_var default flow m ann expr aug s0)).
+    { intros default s0 H0. unfold handle_var. apply (present_upd_attr n). exact H0. }
+    assert (Hal : forall s', aliasing chain m expr s = Some s' -> present n s').
+    { intros s' Ha. unfold aliasing in Ha. destruct (lookup m (contents s)); [discriminate|].
+      destruct expr as [[| | |]|]; try discriminate. inversion Ha; subst. exact H. }
+    destruct sc.
+    - destruct (aliasing chain m expr s) eqn:Ea; [eapply Hal; eauto|].
+      unfold handle_module_var. destruct (mem m module_meta_vars); auto.
+      destruct (lookup m (contents s)) as [o|]; [destruct (is_attr o); auto|]. destruct aug; auto.
+      apply Hv. apply keeps_add_obj. exact H.
+    - destruct (if aug then None else oldschool m expr s) as [s'|] eqn:Eo.
+      + destruct aug; [discriminate|]. unfold oldschool in Eo.
+        destruct expr as [[| |f [|a0 [|? ?]]|]|]; try discriminate.
+        destruct (text_eqb m a0 && mem f oldschool_names); [|discriminate].
+        destruct (lookup m (contents s)) as [[k a1 d| |]|] eqn:E; try discriminate. inversion Eo; subst. unfold present in *. cbn.
+        rewrite lookup_replace, E. destruct (text_eqb n m); [discriminate|exact H].
+      + destruct (aliasing chain m expr s) eqn:Ea; [eapply Hal; eauto|].
+        unfold handle_class_var. destruct (negb (maybe_attribute inh (contents s) m)); auto.
+        destruct (lookup m (contents s)); auto. destruct aug; auto. apply Hv. apply keeps_add_obj. exact H.
+  Qed.
+
+  Lemma walk_present : forall x flow inh outer,
+      keeps (walk_stmt clean x ScClass flow inh outer) /\
+      forall n s, In n (stmt_ivars x) -> lookup n inh <> Some SNonAttr -> present n (walk_stmt clean x ScClass flow inh outer s).
+  Proof.
+    intro x. induction x as [nm ds a body IH|nm bs cds body IH|ts r|t an r|t r|d|t b o IHb IHo|b h o f IHb IHh IHo IHf|b IHb|t b o IHb IHo|b o IHb IHo|ns|]
+      using stmt_ind'; intros flow inh outer; cbn [walk_stmt stmt_ivars];
+      try (split; [intros n s H; exact H|intros n s []]).
+    - (* Def *)
+      assert (Hbody : keeps (fun s => fold_left (fun s y => fwalk_stmt clean true inh y s) body s) /\
+                      forall n s, In n (flat_map method_ivars body) -> lookup n inh <> Some SNonAttr ->
+                                  present n (fold_left (fun s y => fwalk_stmt clean true inh y s) body s)).
+      { apply (fold_present (fwalk_stmt clean true inh) method_ivars (fun n => lookup n inh <> Some SNonAttr)).
+        apply Forall_forall. intros y _. apply fwalk_present. }
+      destruct Hbody as [Hk Hp]. split.
+      + intros n s H. destruct (f_prop _); cbn; [apply keeps_add_obj; exact H|].
+        unfold fwalk_body. apply (Hk n). apply keeps_add_obj. exact H.
+      + intros n s Hin Hi. destruct (def_wrap PClass ds WNone) as [w|] eqn:Ew; [|contradiction].
+        pose proof (deco_flags_class nm ds WNone w Ew) as Hf.
+        change (fold_left (deco_step true) ds (flags_of nm WNone)) with (deco_flags true nm ds) in Hf. rewrite Hf.
+        destruct w; cbn [flags_of f_prop]; try contradiction; unfold fwalk_body; apply (Hp n); auto.
+    - (* Class *)
+      split; [|intros n s []]. intros n s H. unfold present in *. cbn. rewrite lookup_replace, !lookup_add_obj, text_eqb_refl.
+      destruct (text_eqb n nm); [discriminate|exact H].
+    - (* Assign *)
+      split; [|intros n s []]. intros n s H. revert s H. induction ts as [|t ts IHts]; cbn [fold_left]; intros s H; auto.
+      apply IHts. destruct t as [m|ms|a0]; try (apply keeps_handle_assignment; exact H).
+      revert s H. induction ms as [|m ms IHm]; cbn [fold_left]; intros s H; auto. apply IHm. apply keeps_handle_assignment. exact H.
+    - split; [|intros n s []]. intros n s H. apply keeps_handle_assignment. exact H.
+    - split; [|intros n s []]. intros n s H. apply keeps_handle_assignment. exact H.
+    - split; [apply keeps_attach_doc|intros n s []].
+    - destruct t; try (split; [intros n s H; exact H|intros n s []]);
+        apply (fold_present (fun y st => walk_stmt clean y ScClass _ inh outer st) stmt_ivars (fun n => lookup n inh <> Some SNonAttr));
+        eapply Forall_impl; [|exact IHb| |exact IHb]; cbn; intros y Hy; apply Hy.
+    - apply (fold_present (fun y st => walk_stmt clean y ScClass _ inh outer st) stmt_ivars (fun n => lookup n inh <> Some SNonAttr)).
+      eapply Forall_impl; [|exact IHb]; cbn; intros y Hy; apply Hy.
+    - apply (fold_present (fun y st => walk_stmt clean y ScClass _ inh outer st) stmt_ivars (fun n => lookup n inh <> Some SNonAttr)).
+      eapply Forall_impl; [|exact IHb]; cbn; intros y Hy; apply Hy.
+    - apply (fold_present (fun y st => walk_stmt clean y ScClass _ inh outer st) stmt_ivars (fun n => lookup n inh <> Some SNonAttr)).
+      eapply Forall_impl; [|exact IHb]; cbn; intros y Hy; apply Hy.
+    - apply (fold_present (fun y st => walk_stmt clean y ScClass _ inh outer st) stmt_ivars (fun n => lookup n inh <> Some SNonAttr)).
+      eapply Forall_impl; [|exact IHb]; cbn; intros y Hy; apply Hy.
+    - (* Import *)
+      split; [|intros n s []]. intros n s H. revert s H. induction ns as [|p ns IHn]; cbn; intros s H; auto.
+  Qed.
+
+  Lemma class_ivars_documented : forall body flow inh outer s n,
+      In n (class_ivars body) -> lookup n inh <> Some SNonAttr ->
+      present n (fold_left (fun st y => walk_stmt clean y ScClass flow inh outer st) body s).
+  Proof.
+    intros body flow inh outer s n Hin Hi.
+    apply (proj2 (fold_present (fun y st => walk_stmt clean y ScClass flow inh outer st) stmt_ivars (fun n => lookup n inh <> Some SNonAttr) body
+                   ltac:(apply Forall_forall; intros y _; apply walk_present))); auto.
   Qed.
 
   (* ================================================================ the simulation, one statement *)
   Definition step_ok (x : stmt) : Prop :=
-    forall sc flow inh outer s e e',
-      St sc s e -> good_chain outer -> imps_ok s e -> (sc = ScModule -> outer = []) ->
-      (forall n, In n (assigned_names x) -> sc = ScClass -> lookup n inh <> Some SNonAttr) ->
-      no_inherited_shadow DN x = true -> incl (def_names x) DN ->
-      py_stmt strict x (pscope_of sc) e = Some e' ->
-      St sc (walk_stmt clean x sc flow inh outer s) e'.
+    forall sc ivs flow inh pinh outer fr s e e',
+      St sc ivs s e -> chain_rel outer fr -> mem_rel inh pinh ->
+      (sc = ScClass -> incl (stmt_ivars x) ivs) -> incl (ann_names x) ANN ->
+      py_stmt g x (pscope_of sc) pinh ivs fr e = Some e' ->
+      St sc ivs (walk_stmt clean x sc flow inh outer s) e'.
 
   Lemma suite_step : forall body, Forall step_ok body ->
-      forall sc flow inh outer s e e',
-        St sc s e -> good_chain outer -> imps_ok s e -> (sc = ScModule -> outer = []) ->
-        (forall n, In n (flat_map assigned_names body) -> sc = ScClass -> lookup n inh <> Some SNonAttr) ->
-        forallb (no_inherited_shadow DN) body = true -> incl (flat_map def_names body) DN ->
-        ofold (fun y e' => py_stmt strict y (pscope_of sc) e') body e = Some e' ->
-        St sc (fold_left (fun st y => walk_stmt clean y sc flow inh outer st) body s) e'.
+      forall sc ivs flow inh pinh outer fr s e e',
+        St sc ivs s e -> chain_rel outer fr -> mem_rel inh pinh ->
+        (sc = ScClass -> incl (flat_map stmt_ivars body) ivs) -> incl (flat_map ann_names body) ANN ->
+        ofold (fun y e' => py_stmt g y (pscope_of sc) pinh ivs fr e') body e = Some e' ->
+        St sc ivs (fold_left (fun st y => walk_stmt clean y sc flow inh outer st) body s) e'.
   Proof.
-    intros body HF. induction HF as [|y body Hy _ IH]; cbn [fold_left ofold]; intros sc flow inh outer s e e' HS HG HI Hout Hinh Hsh Hdn Hpy.
+    intros body HF. induction HF as [|y body Hy _ IH]; cbn [fold_left ofold]; intros sc ivs flow inh pinh outer fr s e e' HS HC Hmem Hself Hann Hpy.
     - inversion Hpy; subst. exact HS.
-    - destruct (py_stmt strict y (pscope_of sc) e) as [e1|] eqn:E1; [|discriminate].
-      cbn in Hsh. apply andb_true_iff in Hsh. destruct Hsh as [Hsh1 Hsh2].
-      eapply IH; [|exact HG|eapply imps_step; eauto|exact Hout| |exact Hsh2| |exact Hpy].
+    - destruct (py_stmt g y (pscope_of sc) pinh ivs fr e) as [e1|] eqn:E1; [|discriminate].
+      eapply IH; [|exact HC|exact Hmem| | |exact Hpy].
       + eapply Hy; eauto.
-        * intros; apply Hinh; auto. cbn. apply in_or_app. auto.
-        * intros n Hn. apply Hdn. cbn. apply in_or_app. auto.
-      + intros; apply Hinh; auto. cbn. apply in_or_app. auto.
-      + intros n Hn. apply Hdn. cbn. apply in_or_app. auto.
+        * intros Hsc a Ha. apply (Hself Hsc). cbn. apply in_or_app. auto.
+        * intros a Ha. apply Hann. cbn. apply in_or_app. auto.
+      + intros Hsc a Ha. apply (Hself Hsc). cbn. apply in_or_app. auto.
+      + intros a Ha. apply Hann. cbn. apply in_or_app. auto.
   Qed.
 
-  Lemma St_contents_eq : forall sc s s' e, contents s' = contents s -> cur s' = cur s -> St sc s e -> St sc s' e.
+  Lemma bind_aux_St : forall sc ivs s e n i e', St sc ivs s e -> bind_aux n i e = Some e' ->
+      pdef n e = false /\ e' = bind n (VAux i) e.
   Proof.
-    intros sc s s' e H Hc [HA [HG HC]]. unfold St, cur_ok in *. rewrite H, Hc. auto.
+    intros sc ivs s e n i e' _ H. unfold bind_aux in H. unfold pdef.
+    destruct (plookup n e) as [[| | |]|]; try discriminate; inversion H; auto.
   Qed.
 
-  Lemma bind_aux_St : forall sc s e n e', St sc s e -> bind_aux n e = Some e' -> St sc s e'.
+  (* Python binds an auxiliary name the documentation does not track (a loop variable) *)
+  Lemma St_aux_other : forall sc ivs s e n, St sc ivs s e -> pdef n e = false -> St sc ivs s (bind n (VAux IOther) e).
   Proof.
-    intros sc s e n e' [HA HG] H. unfold bind_aux in H. split; auto.
-    assert (Hp : pdef n e = false /\ e' = bind n VAux e).
-    { unfold pdef. destruct (plookup n e) as [[| | |]|]; try discriminate; inversion H; auto. }
-    destruct Hp as [Hp He]. subst. apply inv_aux; auto.
+    intros sc ivs s e n [HA HG HC HI [M1 M2]] Hd. constructor; auto.
+    - apply inv_aux; auto.
+    - intros m o Hm. rewrite pdef_bind. destruct (text_eqb m n) eqn:E.
+      + apply text_eqb_eq in E. subst. destruct (HI _ _ Hm); [congruence|auto].
+      + eauto.
+    - split.
+      + intros m Hm. rewrite plookup_bind. destruct (text_eqb m n); [discriminate|auto].
+      + intros m i Hp Hi. rewrite plookup_bind in Hp. destruct (text_eqb m n); [inversion Hp; subst; contradiction|auto].
   Qed.
 
-  Lemma import_contents : forall ns s, contents (fold_left (fun s n => set_imp n None s) ns s) = contents s
-                                       /\ cur (fold_left (fun s n => set_imp n None s) ns s) = cur s.
-  Proof. induction ns as [|n ns IH]; cbn; intros s; auto. destruct (IH (set_imp n None s)) as [H1 H2]. rewrite H1, H2. auto. Qed.
+  (* an import: both sides record what the name is bound to *)
+  Lemma St_import : forall sc ivs s e n i, St sc ivs s e -> pdef n e = false ->
+      St sc ivs (set_imp n (impval_of i) s) (bind n (VAux i) e).
+  Proof.
+    intros sc ivs s e n i [HA HG HC HI [M1 M2]] Hd. constructor; auto.
+    - cbn. apply inv_aux; auto.
+    - cbn. intros m o Hm. rewrite pdef_bind. destruct (text_eqb m n) eqn:E.
+      + apply text_eqb_eq in E. subst. destruct (HI _ _ Hm); [congruence|auto].
+      + eauto.
+    - cbn. split.
+      + intros m Hm. rewrite plookup_bind. cbn in Hm. destruct (text_eqb m n); [discriminate|auto].
+      + intros m j Hp Hj. rewrite plookup_bind in Hp. cbn. destruct (text_eqb m n); [inversion Hp; subst; reflexivity|auto].
+  Qed.
 
   Lemma incl_app_l : forall {X} (a b c : list X), incl (a ++ b) c -> incl a c.
-  Proof. intros X a b c H x Hx. apply H. apply in_or_app. auto. Qed.
-  Lemma incl_app_r : forall {X} (a b c : list X), incl (a ++ b) c -> incl b c.
   Proof. intros X a b c H x Hx. apply H. apply in_or_app. auto. Qed.
 
   Theorem step : forall x, step_ok x.
   Proof.
-    intro x. induction x as [nm ds a body IH|nm bs body IH|ts r|t an r|t r|d|t b o IHb IHo|b h o f IHb IHh IHo IHf|b IHb|t b o IHb IHo|b o IHb IHo|ns|]
-      using stmt_ind'; intros sc flow inh outer s e e' HS HG HI Hout Hinh Hsh Hdn Hpy.
-    - (* Def *) eapply St_def; eauto. apply Hdn. cbn. auto.
+    intro x. induction x as [nm ds a body IH|nm bs cds body IH|ts r|t an r|t r|d|t b o IHb IHo|b h o f IHb IHh IHo IHf|b IHb|t b o IHb IHo|b o IHb IHo|ns|]
+      using stmt_ind'; intros sc ivs flow inh pinh outer fr s e e' HS HC Hmem Hself Hann Hpy.
+    - (* Def *) eapply St_def; eauto.
     - (* Class *)
       cbn [py_stmt] in Hpy.
-      destruct (bases_exc e bs) as [xc|] eqn:Eb; [|discriminate].
-      destruct (ofold (fun y e'0 => py_stmt strict y PClass e'0) body []) as [ns|] eqn:En; [|discriminate].
+      destruct (forallb transparent_deco cds); [|discriminate].
+      destruct (bases_info e ivs fr bs) as [[xc mro]|] eqn:Eb; [|discriminate].
+      destruct (ofold (fun y e'0 => py_stmt g y PClass mro (class_ivars body) (mkFrame e ivs nm :: fr) e'0) body []) as [ns|] eqn:En; [|discriminate].
       inversion Hpy; subst e'. clear Hpy.
       cbn [walk_stmt].
       set (chain := (contents s, imps s) :: outer).
       set (rs := map (resolve chain) bs).
       set (ih := flat_map base_inh rs).
+      destruct (bases_agree _ _ _ _ _ _ _ _ _ HS HC Eb) as [Hexc Hih]. fold chain in Hexc, Hih. fold rs in Hexc, Hih. fold ih in Hih.
       set (O1 := OClass (existsb base_exc rs) (clean_doc clean body) [] [] ih).
-      pose proof (St_nodup _ _ _ HS) as ND. destruct HS as [HA [HGc HCc]].
-      assert (HGchain : good_chain chain).
-      { constructor; auto. cbn. exact (proj2 HGc). }
-      assert (Hih : inh_ok ih) by (apply inherited_ok; exact HGchain).
-      assert (HgO1 : good_obj O1).
-      { cbn. split; auto. intros n o []. }
+      pose proof (St_nodup _ _ _ _ HS) as ND.
       pose proof (add_obj_upd' nm O1 s ND) as HU1.
-      assert (Hnm : In nm DN) by (apply Hdn; cbn; auto).
-      assert (HG1 : good_c (contents (add_obj nm O1 s))).
-      { eapply good_upd; [exact HGc|exact HU1|exact HgO1|intros _; exact Hnm]. }
-      cbn in Hsh. apply andb_true_iff in Hsh. destruct Hsh as [Hsh1 Hsh2].
       (* the class body, walked in a fresh scope *)
-      assert (Hinner : St ScClass
+      assert (Hinner : St ScClass (class_ivars body)
                 (fold_left (fun st y => walk_stmt clean y ScClass flow ih
                                           ((contents (set_cur None (add_obj nm O1 s)), imps (set_cur None (add_obj nm O1 s))) :: outer) st)
                            body empty_st) ns).
-      { eapply (suite_step body IH ScClass); [| | | | |exact Hsh2| |exact En].
-        - split; [apply agree_empty|]. split; [split; [intros n o []|intros n o []]|apply cur_ok_none; reflexivity].
-        - constructor; auto. cbn. exact (proj2 HG1).
-        - intros n Hn. cbn in Hn. congruence.
-        - discriminate.
-        - intros n Hn _ Hl.
-          destruct bs as [|b0 bs']; [cbn in Hl; discriminate|].
-          rewrite forallb_forall in Hsh1. specialize (Hsh1 _ Hn).
-          apply lookup_In in Hl. apply Hih in Hl. apply mem_In in Hl. rewrite Hl in Hsh1. discriminate.
-        - intros n Hn. apply Hdn. cbn. auto. }
+      { eapply (suite_step body IH ScClass (class_ivars body)); [| |exact Hih| | |exact En].
+        - constructor; cbn.
+          + apply agree_empty.
+          + intros n o [].
+          + apply cur_ok_none; reflexivity.
+          + intros n o Hl; discriminate.
+          + split; [intros n Hn; exfalso; apply Hn; reflexivity|intros n i Hp; discriminate].
+        - constructor; [|exact HC]. exists sc, (contents s). cbn.
+          split; [exact (st_agree _ _ _ _ HS)|]. split; [exact (st_iv _ _ _ _ HS)|].
+          split; [rewrite imps_add_obj; exact (st_imps _ _ _ _ HS)|].
+          intros m Hm. rewrite (proj2 (proj1 HU1)). apply text_eqb_neq in Hm. rewrite Hm. reflexivity.
+        - intros _. apply incl_refl.
+        - intros a0 Ha0. apply Hann. cbn. exact Ha0. }
       set (inner := fold_left _ body empty_st) in *.
       set (O2 := OClass (existsb base_exc rs) (clean_doc clean body) (infer_all (contents inner)) (old inner) ih).
-      cbn [contents set_cur set_contents].
       assert (E1 : lookup nm (contents (add_obj nm O1 s)) = Some O1).
       { rewrite (proj2 (proj1 HU1)). rewrite text_eqb_refl. reflexivity. }
       pose proof (replace_upd nm O2 (add_obj nm O1 s) _ (proj1 (proj1 HU1)) E1) as HU2.
-      destruct Hinner as [HAi [HGi _]].
-      split; [|split]; cbn [contents]; [| |apply cur_ok_none; reflexivity].
-      + eapply inv_point; [exact HA|eapply upd_fun_trans; [exact (proj1 HU1)|exact (proj1 HU2)]| |reflexivity].
-        constructor; [reflexivity|apply agree_infer_all; exact HAi|].
-        intros Hsc. subst sc. specialize (Hout eq_refl). subst outer. subst rs chain. apply (bases_exc_agree s e bs xc HA HI Eb).
-      + eapply good_upd; [exact HG1|exact HU2| |intros _; exact Hnm].
-        cbn. split; auto. apply nonattr_infer_all. exact (proj1 HGi).
+      eapply (St_point_g sc ivs s e nm O2 _ (set_cur None (set_contents (replace nm O2 (contents (set_cur None (add_obj nm O1 s)))) (set_cur None (add_obj nm O1 s)))));
+        [exact HS|cbn; eapply upd_fun_trans; [exact (proj1 HU1)|exact (proj1 HU2)]| |cbn; apply imps_add_obj|apply cur_ok_none; reflexivity| |reflexivity].
+      + cbn. eapply good_upd; [|exact HU2|].
+        * eapply good_upd; [exact (st_good _ _ _ _ HS)|exact HU1|]. apply fin_obj_class. intros n o [].
+        * apply fin_obj_class. apply fin_infer_all. exact (st_good _ _ _ _ Hinner).
+      + assert (Hlk : forall n, lookup n (infer_all (contents inner)) = option_map infer_one (lookup n (contents inner))).
+        { intro n. rewrite infer_all_map. rewrite (lookup_map (fun _ => infer_one)). destruct (lookup n (contents inner)); reflexivity. }
+        constructor; [reflexivity|apply agree_infer_all; exact (st_agree _ _ _ _ Hinner)|exact Hexc|exact Hih| |].
+        * intros n o Hl. rewrite Hlk in Hl. destruct (lookup n (contents inner)) as [o0|] eqn:E0; [|discriminate].
+          exact (st_iv _ _ _ _ Hinner n o0 E0).
+        * intros n Hin Hi. rewrite Hlk.
+          pose proof (class_ivars_documented body flow ih ((contents (set_cur None (add_obj nm O1 s)), imps (set_cur None (add_obj nm O1 s))) :: outer) empty_st n Hin Hi) as Hp.
+          fold inner in Hp. unfold present in Hp. destruct (lookup n (contents inner)); [discriminate|contradiction].
     - (* Assign *) eapply St_assign; eauto.
     - (* AnnAssign *) eapply St_annassign; eauto.
     - (* AugAssign *) eapply St_augassign; eauto.
     - (* ExprStr *) cbn in Hpy. inversion Hpy; subst. cbn [walk_stmt]. apply St_attach_doc. exact HS.
     - (* If *)
-      cbn in Hsh. apply andb_true_iff in Hsh. destruct Hsh as [Hsb Hso]. cbn [def_names assigned_names] in *.
-      destruct t; cbn [py_stmt walk_stmt] in *.
+      cbn [ann_names] in *.
+      destruct t; cbn [py_stmt walk_stmt stmt_ivars] in *.
       + destruct (nonbinding_suite o); inversion Hpy; subst. exact HS.
       + destruct (nonbinding_suite o); [|discriminate].
-        eapply (suite_step b IHb sc _ inh outer s e e');
-          [exact HS|exact HG|exact HI|exact Hout|intros; apply Hinh; auto; apply in_or_app; auto|exact Hsb|eapply incl_app_l; exact Hdn|exact Hpy].
+        eapply (suite_step b IHb sc ivs _ inh pinh outer fr s e e');
+          [exact HS|exact HC|exact Hmem|exact Hself|eapply incl_app_l; exact Hann|exact Hpy].
       + destruct (nonbinding_suite b) eqn:Enb; [|discriminate]. destruct (nonbinding_suite o); inversion Hpy; subst.
-        eapply nb_suite; eauto. apply Forall_forall. intros y _ Hy. apply walk_nonbinding. exact Hy.
+        eapply nb_suite; eauto.
     - (* Try *)
-      cbn in Hsh. apply andb_true_iff in Hsh. destruct Hsh as [Hsh Hsf]. apply andb_true_iff in Hsh. destruct Hsh as [Hsh Hso].
-      apply andb_true_iff in Hsh. destruct Hsh as [Hsb Hsh].
-      cbn [def_names assigned_names py_stmt walk_stmt] in *.
+      cbn [stmt_ivars ann_names py_stmt walk_stmt] in *.
       destruct (nonbinding_suite h && nonbinding_suite o && nonbinding_suite f); [|discriminate].
-      eapply (suite_step b IHb sc _ inh outer s e e');
-        [exact HS|exact HG|exact HI|exact Hout|intros; apply Hinh; auto; apply in_or_app; auto|exact Hsb|eapply incl_app_l; exact Hdn|exact Hpy].
+      eapply (suite_step b IHb sc ivs _ inh pinh outer fr s e e');
+        [exact HS|exact HC|exact Hmem|exact Hself|eapply incl_app_l; exact Hann|exact Hpy].
     - (* With *)
-      cbn [no_inherited_shadow def_names assigned_names py_stmt walk_stmt] in *.
-      eapply (suite_step b IHb sc _ inh outer s e e'); [exact HS|exact HG|exact HI|exact Hout|exact Hinh|exact Hsh|exact Hdn|exact Hpy].
+      cbn [stmt_ivars ann_names py_stmt walk_stmt] in *.
+      eapply (suite_step b IHb sc ivs _ inh pinh outer fr s e e'); eauto.
     - (* For *)
-      cbn in Hsh. apply andb_true_iff in Hsh. destruct Hsh as [Hsb Hso]. cbn [def_names assigned_names py_stmt walk_stmt] in *.
+      cbn [stmt_ivars ann_names py_stmt walk_stmt] in *.
       destruct (nonbinding_suite o); [|discriminate].
-      destruct (bind_aux t e) as [e1|] eqn:Ea; [|discriminate].
-      eapply (suite_step b IHb sc _ inh outer s e1 e');
-        [eapply bind_aux_St; eauto|exact HG|intros n0 Hn0; apply (proj1 (bind_aux_mono _ _ _ Ea)); auto|exact Hout|intros; apply Hinh; auto; apply in_or_app; auto|exact Hsb|eapply incl_app_l; exact Hdn|exact Hpy].
+      destruct (bind_aux t IOther e) as [e1|] eqn:Ea; [|discriminate].
+      destruct (bind_aux_St _ _ _ _ _ _ _ HS Ea) as [Hd He1]. subst e1.
+      eapply (suite_step b IHb sc ivs _ inh pinh outer fr s _ e');
+        [exact (St_aux_other _ _ _ _ _ HS Hd)|exact HC|exact Hmem|exact Hself|eapply incl_app_l; exact Hann|exact Hpy].
     - (* While *)
-      cbn in Hsh. apply andb_true_iff in Hsh. destruct Hsh as [Hsb Hso]. cbn [def_names assigned_names py_stmt walk_stmt] in *.
+      cbn [stmt_ivars ann_names py_stmt walk_stmt] in *.
       destruct (nonbinding_suite o); [|discriminate].
-      eapply (suite_step b IHb sc _ inh outer s e e');
-        [exact HS|exact HG|exact HI|exact Hout|intros; apply Hinh; auto; apply in_or_app; auto|exact Hsb|eapply incl_app_l; exact Hdn|exact Hpy].
+      eapply (suite_step b IHb sc ivs _ inh pinh outer fr s e e');
+        [exact HS|exact HC|exact Hmem|exact Hself|eapply incl_app_l; exact Hann|exact Hpy].
     - (* Import *)
-      cbn [py_stmt walk_stmt] in *. apply (St_contents_eq sc s); [apply import_contents|apply import_contents|].
-      clear - HS Hpy. revert e HS Hpy. induction ns as [|n ns IHn]; cbn; intros e HS Hpy.
+      cbn [py_stmt walk_stmt] in *. clear Hself Hann. revert s e HS Hpy. induction ns as [|[n i] ns IHn]; cbn; intros s e HS Hpy.
       + inversion Hpy; subst; exact HS.
-      + destruct (bind_aux n e) as [e1|] eqn:Ea; [|discriminate]. eapply IHn; [|exact Hpy]. eapply bind_aux_St; eauto.
+      + destruct (bind_aux n i e) as [e1|] eqn:Ea; [|discriminate].
+        destruct (bind_aux_St _ _ _ _ _ _ _ HS Ea) as [Hd He1]. subst e1.
+        eapply IHn; [|exact Hpy]. apply St_import; assumption.
     - (* Other *) cbn in Hpy. inversion Hpy; subst. exact HS.
   Qed.
 End Sim.
@@ -1432,68 +1646,107 @@ Scheme agree_obj_min := Minimality for agree_obj Sort Prop
 Lemma post_obj_ivar : forall inh n o, is_ivar_obj o = true -> is_ivar_obj (post_obj inh n o) = true.
 Proof. intros inh n o H. destruct o as [| |k d a v]; try discriminate. destruct k; try discriminate. exact H. Qed.
 
+Lemma lookup_post : forall inh c n,
+    lookup n (post_contents inh c) = match lookup n c with Some o => Some (post_obj inh n o) | None => None end.
+Proof. intros. unfold post_contents. apply (lookup_map (post_obj inh)). Qed.
+
 Lemma post_agree : forall clean vals,
     (forall sc o v, agree_obj clean vals sc o v -> forall inh n, agree_obj clean vals sc (post_obj inh n o) v) /\
     (forall sc c e, agree_ns clean vals sc c e -> forall inh, agree_ns clean vals sc (post_contents inh c) e).
 Proof.
   intros clean vals.
-  assert (H : forall sc, (forall o v, agree_obj clean vals sc o v -> forall inh n, agree_obj clean vals sc (post_obj inh n o) v)
-                         /\ (forall c e, agree_ns clean vals sc c e -> forall inh, agree_ns clean vals sc (post_contents inh c) e)).
-  2: { split; intros sc; apply (H sc). }
-  intro sc0.
+  assert (Hns : forall (P : scope -> obj -> pyval -> Prop) sc c e,
+             agree_ns clean vals sc c e ->
+             (forall n o v, lookup n c = Some o -> plookup n e = Some v -> is_aux v = false -> forall inh n', agree_obj clean vals sc (post_obj inh n' o) v) ->
+             forall inh, agree_ns clean vals sc (post_contents inh c) e).
+  { intros _ sc c e Hc IH4 inh. inversion Hc as [? ? ? R1 R2 R3 R4]; subst. constructor.
+    - unfold post_contents. rewrite (keys_map (post_obj inh)). exact R1.
+    - intros n Hn. rewrite lookup_post. specialize (R2 n Hn). destruct (lookup n c); congruence.
+    - intros n o Hl. rewrite lookup_post in Hl. destruct (lookup n c) as [o0|] eqn:E; [|discriminate].
+      inversion Hl; subst. destruct (R3 _ _ E) as [?|[? ?]]; auto using post_obj_ivar.
+    - intros n o v Hl Hp Ha. rewrite lookup_post in Hl. destruct (lookup n c) as [o0|] eqn:E; [|discriminate].
+      inversion Hl; subst. eapply IH4; eauto. }
   assert (Hobj : forall sc o v, agree_obj clean vals sc o v -> forall inh n, agree_obj clean vals sc (post_obj inh n o) v).
   { apply (agree_obj_min clean vals
              (fun sc o v => forall inh n, agree_obj clean vals sc (post_obj inh n o) v)
              (fun sc c e => forall inh, agree_ns clean vals sc (post_contents inh c) e)).
     - intros sc k a d w d' Hk Hd inh n. cbn. constructor; auto.
     - intros d an va a d' Hd inh n. cbn. constructor; auto.
-    - intros sc x d c oo ih x' d' ns Hd _ IH Hx inh n. cbn. constructor; auto. apply (IH ih).
+    - intros sc x d c oo ih x' d' ns mro ivs Hd _ IH Hx Hm Hiv Hpr inh n. cbn.
+      change (map (fun p : name * obj => (fst p, post_obj ih (fst p) (snd p))) c) with (post_contents ih c).
+      constructor; auto.
+      + intros m o Hl. rewrite lookup_post in Hl. destruct (lookup m c) as [o0|] eqn:E; [|discriminate]. eauto.
+      + intros m Hin Hi. rewrite lookup_post. specialize (Hpr m Hin Hi). destruct (lookup m c); [discriminate|contradiction].
     - intros sc k d an va v Hk Hvr inh n. cbn. destruct k; try (constructor; assumption).
       destruct (inherits_ivar inh n); constructor; try discriminate; try assumption. intros _; left; reflexivity.
-    - intros sc c e R1 R2 R3 R4 IH4 inh. unfold post_contents. constructor.
-      + rewrite (keys_map (post_obj inh)). exact R1.
-      + intros n Hn. rewrite (lookup_map (post_obj inh)). specialize (R2 n Hn). destruct (lookup n c); congruence.
-      + intros n o Hl. rewrite (lookup_map (post_obj inh)) in Hl. destruct (lookup n c) as [o0|] eqn:E; [|discriminate].
-        inversion Hl; subst. destruct (R3 _ _ E) as [?|[? ?]]; auto using post_obj_ivar.
-      + intros n o v Hl Hp Ha. rewrite (lookup_map (post_obj inh)) in Hl. destruct (lookup n c) as [o0|] eqn:E; [|discriminate].
-        inversion Hl; subst. eapply IH4; eauto. }
+    - intros sc c e R1 R2 R3 R4 IH4 inh. apply (Hns (fun _ _ _ => True) sc c e); [constructor; assumption|].
+      intros n o v Hl Hp Ha inh0 n'. eapply IH4; eauto. }
   split; [apply Hobj|].
-  intros c e Hns inh. inversion Hns as [? ? ? R1 R2 R3 R4]; subst. unfold post_contents. constructor.
-  - rewrite (keys_map (post_obj inh)). exact R1.
-  - intros n Hn. rewrite (lookup_map (post_obj inh)). specialize (R2 n Hn). destruct (lookup n c); congruence.
-  - intros n o Hl. rewrite (lookup_map (post_obj inh)) in Hl. destruct (lookup n c) as [o0|] eqn:E; [|discriminate].
-    inversion Hl; subst. destruct (R3 _ _ E) as [?|[? ?]]; auto using post_obj_ivar.
-  - intros n o v Hl Hp Ha. rewrite (lookup_map (post_obj inh)) in Hl. destruct (lookup n c) as [o0|] eqn:E; [|discriminate].
-    inversion Hl; subst. apply Hobj. eauto.
+  intros sc c e Hc inh. apply (Hns (fun _ _ _ => True) sc c e Hc). intros n o v Hl Hp Ha inh0 n'. apply Hobj.
+  inversion Hc; subst; eauto.
+Qed.
+
+(* nested induction on documented objects *)
+Section ObjInd.
+  Variable P : obj -> Prop.
+  Hypothesis HFun : forall k a d, P (OFun k a d).
+  Hypothesis HClass : forall x d c oo ih, Forall (fun p => P (snd p)) c -> P (OClass x d c oo ih).
+  Hypothesis HAttr : forall k d an va, P (OAttr k d an va).
+  Fixpoint obj_ind' (o : obj) : P o :=
+    match o with
+    | OFun k a d => HFun k a d
+    | OClass x d c oo ih =>
+        HClass x d c oo ih ((fix all (l : contents_t) : Forall (fun p => P (snd p)) l :=
+                               match l with [] => Forall_nil _ | p :: r => Forall_cons p (obj_ind' (snd p)) (all r) end) c)
+    | OAttr k d an va => HAttr k d an va
+    end.
+End ObjInd.
+
+(* annotations: finished objects stay finished under post-processing (only kinds change) *)
+Lemma fin_post : forall ANN o n inh, fin_obj ANN n o -> fin_obj ANN n (post_obj inh n o).
+Proof.
+  intros ANN o. induction o as [k a d|x d c oo ih IH|k d an va] using obj_ind'; intros n inh H; cbn [post_obj]; auto.
+  - apply fin_obj_class. apply (fin_obj_class ANN n x d c oo ih) in H.
+    intros m o' Hin. apply in_map_iff in Hin. destruct Hin as [[m0 o0] [Heq Hin]]. cbn in Heq. inversion Heq; subst.
+    rewrite Forall_forall in IH. apply (IH (m, o0) Hin). apply (H _ _ Hin).
+  - destruct k; auto. destruct (inherits_ivar inh n); exact H.
+Qed.
+
+Lemma fin_post_c : forall ANN inh c, fin_c ANN c -> fin_c ANN (post_contents inh c).
+Proof.
+  intros ANN inh c H m o' Hin. unfold post_contents in Hin. apply in_map_iff in Hin.
+  destruct Hin as [[m0 o0] [Heq Hin]]. cbn in Heq. inversion Heq; subst. apply fin_post. apply (H _ _ Hin).
 Qed.
 
 (* ================================================================ the whole module *)
-Theorem module_simulation_gen : forall clean vals strict prog e,
-    (vals = true -> strict = true) ->
-    py_body strict PModule prog [] = Some e -> shadow_guard prog = true ->
-    agree_ns clean vals ScModule (m_contents (doc_walk clean prog)) e.
-Proof.
-  intros clean vals strict prog e Hvs Hpy Hg. unfold doc_walk, doc_walk_raw, walk_body. cbn [m_contents].
-  apply (proj2 (post_agree clean vals)). apply agree_infer_all.
-  pose (DN := flat_map def_names prog).
-  assert (HS : St clean vals DN ScModule
-                  (fold_left (fun st y => walk_stmt clean y ScModule false [] [] st) prog empty_st) e).
-  { eapply (suite_step clean vals strict Hvs DN prog); try exact Hpy.
-    - apply Forall_forall. intros x _. apply (step clean vals strict Hvs).
-    - split; [apply agree_empty|]. split; [split; intros n o []|apply cur_ok_none; reflexivity].
-    - constructor.
-    - intros n Hn. cbn in Hn. congruence.
-    - reflexivity.
-    - intros n _ Hsc. discriminate.
-    - exact Hg.
-    - apply incl_refl. }
-  exact (proj1 HS).
-Qed.
+(* the names the program annotates explicitly *)
+Definition prog_ann (prog : list stmt) : list name := flat_map ann_names prog.
 
-Theorem module_simulation : forall clean prog e,
-    py_exec prog = Some e -> shadow_guard prog = true ->
-    agree_ns clean false ScModule (m_contents (doc_walk clean prog)) e.
-Proof. intros clean prog e. apply (module_simulation_gen clean false false). intro; discriminate. Qed.
+Theorem module_simulation_gen : forall clean vals g prog e,
+    g_shadow g = true -> (vals = true -> g_unpack g = true) ->
+    py_exec_g g prog = Some e ->
+    agree_ns clean vals ScModule (m_contents (doc_walk clean prog)) e /\
+    fin_c (prog_ann prog) (m_contents (doc_walk clean prog)).
+Proof.
+  intros clean vals g prog e Hsh Hun Hpy. unfold doc_walk, doc_walk_raw, walk_body. cbn [m_contents].
+  assert (HS : St clean vals (prog_ann prog) ScModule []
+                  (fold_left (fun st y => walk_stmt clean y ScModule false [] [] st) prog empty_st) e).
+  { eapply (suite_step clean vals g (prog_ann prog) prog); try exact Hpy.
+    - apply Forall_forall. intros x _. apply (step clean vals g Hsh Hun (prog_ann prog)).
+    - constructor; cbn.
+      + apply agree_empty.
+      + intros n o [].
+      + apply cur_ok_none; reflexivity.
+      + intros n o Hl; discriminate.
+      + split; [intros n Hn; exfalso; apply Hn; reflexivity|intros n i Hp; discriminate].
+    - constructor.
+    - apply mem_rel_nil.
+    - intro Hsc; discriminate.
+    - apply incl_refl. }
+  split.
+  - apply (proj2 (post_agree clean vals)). apply agree_infer_all. exact (st_agree _ _ _ _ _ _ _ HS).
+  - apply fin_post_c. apply fin_infer_all. exact (st_good _ _ _ _ _ _ _ HS).
+Qed.
 
 (* ---- reading the relation ---------------------------------------------------------------------------- *)
 Lemma lookup_keys : forall {X} n (l : list (name * X)), In n (keys l) <-> lookup n l <> None.
@@ -1512,16 +1765,6 @@ Proof.
   - apply R2.
 Qed.
 
-Lemma agree_keys_class : forall clean vals c e,
-    agree_ns clean vals ScClass c e ->
-    NoDup (keys c) /\ (forall n, pdef n e = true -> In n (keys c)) /\
-    (forall n o, lookup n c = Some o -> pdef n e = true \/ is_ivar_obj o = true).
-Proof.
-  intros clean vals c e H. inversion H as [? ? ? R1 R2 R3 R4]; subst. split; [auto|split].
-  - intros n Hn. apply lookup_keys. auto.
-  - intros n o Hl. destruct (R3 _ _ Hl) as [?|[_ ?]]; auto.
-Qed.
-
 Lemma agree_entry : forall clean vals sc c e n o v,
     agree_ns clean vals sc c e -> lookup n c = Some o -> plookup n e = Some v -> is_aux v = false -> agree_obj clean vals sc o v.
 Proof. intros clean vals sc c e n o v H. inversion H; subst. eauto. Qed.
@@ -1529,7 +1772,7 @@ Proof. intros clean vals sc c e n o v H. inversion H; subst. eauto. Qed.
 Lemma agree_reach : forall clean vals c e sc c' e',
     agree_ns clean vals ScModule c e -> ns_at c e sc c' e' -> agree_ns clean vals sc c' e'.
 Proof.
-  intros clean vals c e sc c' e' H Hr. induction Hr as [|sc c1 e1 n x d c2 oo ih x' d' e2 Hr IH Hl Hp]; auto.
+  intros clean vals c e sc c' e' H Hr. induction Hr as [|sc c1 e1 n x d c2 oo ih x' d' e2 mro ivs Hr IH Hl Hp]; auto.
   pose proof (agree_entry _ _ _ _ _ _ _ _ IH Hl Hp eq_refl) as Ho. inversion Ho; subst. assumption.
 Qed.
 
@@ -1538,15 +1781,24 @@ Proof.
   intros clean vals sc o v H. inversion H; subst; cbn; auto; try (destruct k; auto; contradiction).
 Qed.
 
+Lemma fin_reach : forall ANN c e sc c' e', fin_c ANN c -> ns_at c e sc c' e' -> fin_c ANN c'.
+Proof.
+  intros ANN c e sc c' e' H Hr. induction Hr as [|sc c1 e1 n x d c2 oo ih x' d' e2 mro ivs Hr IH Hl Hp]; auto.
+  apply (fin_obj_class ANN n x d c2 oo ih). apply IH. apply lookup_In. exact Hl.
+Qed.
+
+Definition g_names : guards := mkGuards true false.
+Definition g_strict : guards := mkGuards true true.
+
 Theorem names_agree : forall clean prog e sc c' e',
-    py_exec prog = Some e -> shadow_guard prog = true ->
-    ns_at (m_contents (doc_walk clean prog)) e sc c' e' ->
+    py_exec_names prog = Some e -> ns_at (m_contents (doc_walk clean prog)) e sc c' e' ->
     NoDup (keys c') /\
     (forall n, pdef n e' = true -> In n (keys c')) /\
     (forall n, In n (keys c') -> pdef n e' = true \/ (sc = ScClass /\ exists o, lookup n c' = Some o /\ is_ivar_obj o = true)).
 Proof.
-  intros clean prog e sc c' e' Hpy Hg Hr.
-  pose proof (agree_reach _ _ _ _ _ _ _ (module_simulation clean prog e Hpy Hg) Hr) as H.
+  intros clean prog e sc c' e' Hpy Hr.
+  destruct (module_simulation_gen clean false g_names prog e eq_refl ltac:(intro; discriminate) Hpy) as [Hm _].
+  pose proof (agree_reach _ _ _ _ _ _ _ Hm Hr) as H.
   inversion H as [? ? ? R1 R2 R3 R4]; subst. split; [auto|split].
   - intros n Hn. apply lookup_keys. auto.
   - intros n Hn. apply lookup_keys in Hn. destruct (lookup n c') as [o|] eqn:E; [|congruence].
@@ -1554,80 +1806,126 @@ Proof.
 Qed.
 
 Theorem kinds_agree : forall clean prog e sc c' e' n o v,
-    py_exec prog = Some e -> shadow_guard prog = true ->
-    ns_at (m_contents (doc_walk clean prog)) e sc c' e' ->
+    py_exec_names prog = Some e -> ns_at (m_contents (doc_walk clean prog)) e sc c' e' ->
     lookup n c' = Some o -> plookup n e' = Some v -> is_aux v = false ->
     kind_ok sc o v /\ doc_ok clean o v.
 Proof.
-  intros clean prog e sc c' e' n o v Hpy Hg Hr Hl Hp Ha.
-  pose proof (agree_reach _ _ _ _ _ _ _ (module_simulation clean prog e Hpy Hg) Hr) as H.
+  intros clean prog e sc c' e' n o v Hpy Hr Hl Hp Ha.
+  destruct (module_simulation_gen clean false g_names prog e eq_refl ltac:(intro; discriminate) Hpy) as [Hm _].
+  pose proof (agree_reach _ _ _ _ _ _ _ Hm Hr) as H.
   apply (agree_kind_ok clean false). eapply agree_entry; eauto.
 Qed.
 
 (* a Python class is documented as a class, so every class namespace of the program is reached by ns_at *)
-Theorem classes_reached : forall clean prog e sc c' e' n x' d' e2,
-    py_exec prog = Some e -> shadow_guard prog = true ->
-    ns_at (m_contents (doc_walk clean prog)) e sc c' e' -> plookup n e' = Some (VClass x' d' e2) ->
+Theorem classes_reached : forall clean prog e sc c' e' n x' d' e2 mro ivs,
+    py_exec_names prog = Some e -> ns_at (m_contents (doc_walk clean prog)) e sc c' e' ->
+    plookup n e' = Some (VClass x' d' e2 mro ivs) ->
     exists x d c2 oo ih, lookup n c' = Some (OClass x d c2 oo ih).
 Proof.
-  intros clean prog e sc c' e' n x' d' e2 Hpy Hg Hr Hp.
-  pose proof (agree_reach _ _ _ _ _ _ _ (module_simulation clean prog e Hpy Hg) Hr) as H.
+  intros clean prog e sc c' e' n x' d' e2 mro ivs Hpy Hr Hp.
+  destruct (module_simulation_gen clean false g_names prog e eq_refl ltac:(intro; discriminate) Hpy) as [Hm _].
+  pose proof (agree_reach _ _ _ _ _ _ _ Hm Hr) as H.
   inversion H as [? ? ? R1 R2 R3 R4]; subst.
   assert (Hd : pdef n e' = true) by (unfold pdef; rewrite Hp; reflexivity).
   specialize (R2 n Hd). destruct (lookup n c') as [o|] eqn:E; [|congruence].
   specialize (R4 _ _ _ E Hp eq_refl). inversion R4; subst. eauto 8.
 Qed.
 
+(* instance variables: in a class namespace a documented name that Python does not bind is one of the instance variables
+   of that class statement (class_ivars of its body), and every one of them is documented unless the name is an inherited
+   method or class (_maybeAttribute) *)
+Theorem instance_variables : forall clean prog e sc c1 e1 n x d c2 oo ih x' d' e2 mro ivs,
+    py_exec_names prog = Some e -> ns_at (m_contents (doc_walk clean prog)) e sc c1 e1 ->
+    lookup n c1 = Some (OClass x d c2 oo ih) -> plookup n e1 = Some (VClass x' d' e2 mro ivs) ->
+    (forall m, In m (keys c2) -> pdef m e2 = true \/ In m ivs) /\
+    (forall m, In m ivs -> pfirst m mro <> Some false -> In m (keys c2)).
+Proof.
+  intros clean prog e sc c1 e1 n x d c2 oo ih x' d' e2 mro ivs Hpy Hr Hl Hp.
+  destruct (module_simulation_gen clean false g_names prog e eq_refl ltac:(intro; discriminate) Hpy) as [Hm _].
+  pose proof (agree_reach _ _ _ _ _ _ _ Hm Hr) as H.
+  pose proof (agree_entry _ _ _ _ _ _ _ _ H Hl Hp eq_refl) as Ho. inversion Ho; subst. split.
+  - intros m Hin. apply lookup_keys in Hin. destruct (lookup m c2) as [o|] eqn:E; [|congruence]. eauto.
+  - intros m Hin Hpf. apply lookup_keys.
+    match goal with Hc : forall n, In n ivs -> _ -> lookup n c2 <> None |- _ => apply Hc; auto end.
+    intro Hs. apply Hpf. match goal with Hmr : mem_rel ih mro |- _ => exact (proj1 Hmr m Hs) end.
+Qed.
+
 (* the literal pydoctor remembers for a variable is the literal whose value Python has bound to it (strict subset) *)
 Theorem stored_literal_is_bound : forall clean prog e sc c' e' n k d an l pv,
-    py_exec_strict prog = Some e -> shadow_guard prog = true ->
-    ns_at (m_contents (doc_walk clean prog)) e sc c' e' ->
+    py_exec_strict prog = Some e -> ns_at (m_contents (doc_walk clean prog)) e sc c' e' ->
     lookup n c' = Some (OAttr k d an (Some (AvLit l))) -> k <> KInstanceVar ->
     plookup n e' = Some (VData pv) -> pv = Some l.
 Proof.
-  intros clean prog e sc c' e' n k d an l pv Hpy Hg Hr Hl Hk Hp.
-  assert (Hm : agree_ns clean true ScModule (m_contents (doc_walk clean prog)) e).
-  { apply (module_simulation_gen clean true true); auto. }
+  intros clean prog e sc c' e' n k d an l pv Hpy Hr Hl Hk Hp.
+  destruct (module_simulation_gen clean true g_strict prog e eq_refl ltac:(intro; reflexivity) Hpy) as [Hm _].
   pose proof (agree_reach _ _ _ _ _ _ _ Hm Hr) as H.
   pose proof (agree_entry _ _ _ _ _ _ _ _ H Hl Hp eq_refl) as Ho. inversion Ho; subst.
   match goal with Hv : true = true -> val_rel _ _ _ |- _ => destruct (Hv eq_refl) as [?|Hv'] end; [contradiction|auto].
 Qed.
 
-Lemma py_strict_lax : forall x sc e e', py_stmt true x sc e = Some e' -> py_stmt false x sc e = Some e'.
+(* the annotation of a variable the program never annotates explicitly is the one inferred from the remembered value *)
+Theorem annotation_is_inferred : forall clean prog e sc c' e' n k d an va,
+    py_exec_names prog = Some e -> ns_at (m_contents (doc_walk clean prog)) e sc c' e' ->
+    lookup n c' = Some (OAttr k d an va) -> ~ In n (prog_ann prog) ->
+    an = match va with Some v => infer_value v | None => None end.
 Proof.
-  assert (Hof : forall (body : list stmt) (sc : pscope),
-             Forall (fun x => forall sc e e', py_stmt true x sc e = Some e' -> py_stmt false x sc e = Some e') body ->
-             forall e e', ofold (fun y e0 => py_stmt true y sc e0) body e = Some e' -> ofold (fun y e0 => py_stmt false y sc e0) body e = Some e').
-  { intros body sc HF. induction HF as [|y body Hy _ IH]; cbn [ofold]; intros e e' H; auto.
-    destruct (py_stmt true y sc e) as [e1|] eqn:E; [|discriminate]. rewrite (Hy _ _ _ E). auto. }
-  assert (Hun : forall ns e e', ofold (bind_unpacked true) ns e = Some e' -> ofold (bind_unpacked false) ns e = Some e').
-  { induction ns as [|n ns IH]; cbn [ofold]; intros e e' H; auto.
-    destruct (bind_unpacked true n e) as [e1|] eqn:E; [|discriminate].
-    assert (E' : bind_unpacked false n e = Some e1).
-    { unfold bind_unpacked in *. cbn in *. destruct (literal_bound n e); [discriminate|exact E]. }
-    rewrite E'. auto. }
-  assert (Hbt : forall v t e e', bind_target true v t e = Some e' -> bind_target false v t e = Some e').
-  { intros v t e e' H. destruct t; cbn in *; auto. }
-  assert (Hts : forall v ts e e', ofold (bind_target true v) ts e = Some e' -> ofold (bind_target false v) ts e = Some e').
-  { induction ts as [|t ts IH]; cbn [ofold]; intros e e' H; auto.
-    destruct (bind_target true v t e) as [e1|] eqn:E; [|discriminate]. rewrite (Hbt _ _ _ _ E). auto. }
-  intro x. induction x as [nm ds a body IH|nm bs body IH|ts r|t an r|t r|d|t b o IHb IHo|b h o f IHb IHh IHo IHf|b IHb|t b o IHb IHo|b o IHb IHo|ns|]
-    using stmt_ind'; intros sc e e' H; cbn [py_stmt] in *; auto.
-  - destruct (bases_exc e bs); [|discriminate].
-    destruct (ofold (fun y e0 => py_stmt true y PClass e0) body []) as [ns|] eqn:E; [|discriminate].
-    rewrite (Hof _ _ IH _ _ E). exact H.
-  - destruct (assign_value sc e ts r); [|discriminate]. auto.
-  - destruct t; auto. destruct (nonbinding_suite o); [|discriminate]. apply (Hof _ _ IHb). exact H.
-  - destruct (nonbinding_suite h && nonbinding_suite o && nonbinding_suite f); [|discriminate]. apply (Hof _ _ IHb). exact H.
-  - destruct (nonbinding_suite o); [|discriminate]. destruct (bind_aux t e); [|discriminate]. apply (Hof _ _ IHb). exact H.
-  - destruct (nonbinding_suite o); [|discriminate]. apply (Hof _ _ IHb). exact H.
+  intros clean prog e sc c' e' n k d an va Hpy Hr Hl Hn.
+  destruct (module_simulation_gen clean false g_names prog e eq_refl ltac:(intro; discriminate) Hpy) as [_ Hf].
+  pose proof (fin_reach _ _ _ _ _ _ Hf Hr n _ (lookup_In _ _ _ Hl)) as H. cbn in H. destruct H; [contradiction|assumption].
 Qed.
 
-Lemma py_exec_strict_lax : forall prog e, py_exec_strict prog = Some e -> py_exec prog = Some e.
+(* ---- the guards only remove programs ------------------------------------------------------------------ *)
+Definition g_le (g' g : guards) : Prop :=
+  (g_shadow g' = true -> g_shadow g = true) /\ (g_unpack g' = true -> g_unpack g = true).
+
+Lemma bind_data_le : forall g' g pinh n v e e', g_le g' g -> bind_data g pinh n v e = Some e' -> bind_data g' pinh n v e = Some e'.
 Proof.
-  intros prog e. unfold py_exec_strict, py_exec, py_body. generalize (@nil (name * pyval)) as e0. revert e.
-  induction prog as [|x prog IH]; cbn; intros e e0 H; auto.
-  destruct (py_stmt true x PModule e0) as [e1|] eqn:E; [|discriminate]. rewrite (py_strict_lax _ _ _ _ E). auto.
+  intros g' g pinh n v e e' [H1 _] H. unfold bind_data in *. destruct (mem n py_meta_names); auto.
+  destruct (plookup n e) as [[| | |]|]; auto; destruct (pfirst n pinh) as [[|]|]; auto;
+    destruct (g_shadow g') eqn:E'; destruct (g_shadow g) eqn:E; auto; try discriminate; specialize (H1 eq_refl); discriminate.
+Qed.
+
+Lemma py_stmt_le : forall g' g, g_le g' g -> forall x sc pinh ivs fr e e',
+    py_stmt g x sc pinh ivs fr e = Some e' -> py_stmt g' x sc pinh ivs fr e = Some e'.
+Proof.
+  intros g' g Hle.
+  assert (Hof : forall (body : list stmt),
+             Forall (fun x => forall sc pinh ivs fr e e', py_stmt g x sc pinh ivs fr e = Some e' -> py_stmt g' x sc pinh ivs fr e = Some e') body ->
+             forall sc pinh ivs fr e e', ofold (fun y e0 => py_stmt g y sc pinh ivs fr e0) body e = Some e' ->
+                                         ofold (fun y e0 => py_stmt g' y sc pinh ivs fr e0) body e = Some e').
+  { intros body HF. induction HF as [|y body Hy _ IH]; cbn [ofold]; intros sc pinh ivs fr e e' H; auto.
+    destruct (py_stmt g y sc pinh ivs fr e) as [e1|] eqn:E; [|discriminate]. rewrite (Hy _ _ _ _ _ _ E). auto. }
+  assert (Hun : forall pinh ns e e', ofold (bind_unpacked g pinh) ns e = Some e' -> ofold (bind_unpacked g' pinh) ns e = Some e').
+  { induction ns as [|n ns IH]; cbn [ofold]; intros e e' H; auto.
+    destruct (bind_unpacked g pinh n e) as [e1|] eqn:E; [|discriminate].
+    assert (E' : bind_unpacked g' pinh n e = Some e1).
+    { unfold bind_unpacked in *. destruct (g_unpack g' && literal_bound n e) eqn:Eg.
+      - apply andb_true_iff in Eg. destruct Eg as [Eg El]. rewrite (proj2 Hle Eg), El in E. discriminate.
+      - destruct (g_unpack g && literal_bound n e); [discriminate|]. eapply bind_data_le; eauto. }
+    rewrite E'. auto. }
+  assert (Hbt : forall pinh v t e e', bind_target g pinh v t e = Some e' -> bind_target g' pinh v t e = Some e').
+  { intros pinh v t e e' H. destruct t; cbn in *; auto. destruct v; auto; eapply bind_data_le; eauto. }
+  assert (Hts : forall pinh v ts e e', ofold (bind_target g pinh v) ts e = Some e' -> ofold (bind_target g' pinh v) ts e = Some e').
+  { induction ts as [|t ts IH]; cbn [ofold]; intros e e' H; auto.
+    destruct (bind_target g pinh v t e) as [e1|] eqn:E; [|discriminate]. rewrite (Hbt _ _ _ _ _ E). auto. }
+  intro x. induction x as [nm ds a body IH|nm bs cds body IH|ts r|t an r|t r|d|t b o IHb IHo|b h o f IHb IHh IHo IHf|b IHb|t b o IHb IHo|b o IHb IHo|ns|]
+    using stmt_ind'; intros sc pinh ivs fr e e' H; cbn [py_stmt] in *; auto.
+  - destruct (forallb transparent_deco cds); [|discriminate]. destruct (bases_info e ivs fr bs) as [[xc mro]|]; [|discriminate].
+    destruct (ofold (fun y e0 => py_stmt g y PClass mro (class_ivars body) (mkFrame e ivs nm :: fr) e0) body []) as [ns|] eqn:E; [|discriminate].
+    rewrite (Hof _ IH _ _ _ _ _ _ E). exact H.
+  - destruct (assign_value sc e ts r); [|discriminate]. auto.
+  - destruct t as [n|ms|a0]; auto. destruct r as [r|]; auto. destruct (assign_value sc e [TName n] r); auto.
+  - destruct t; auto. destruct (nonbinding_suite o); [|discriminate]. apply (Hof _ IHb). exact H.
+  - destruct (nonbinding_suite h && nonbinding_suite o && nonbinding_suite f); [|discriminate]. apply (Hof _ IHb). exact H.
+  - destruct (nonbinding_suite o); [|discriminate]. destruct (bind_aux t IOther e); [|discriminate]. apply (Hof _ IHb). exact H.
+  - destruct (nonbinding_suite o); [|discriminate]. apply (Hof _ IHb). exact H.
+Qed.
+
+Lemma py_exec_le : forall g' g prog e, g_le g' g -> py_exec_g g prog = Some e -> py_exec_g g' prog = Some e.
+Proof.
+  intros g' g prog e Hle. unfold py_exec_g, py_body. generalize (@nil (name * pyval)) as e0. revert e.
+  induction prog as [|x prog IH]; cbn [ofold]; intros e e0 H; auto.
+  destruct (py_stmt g x PModule [] [] [] e0) as [e1|] eqn:E; [|discriminate]. rewrite (py_stmt_le g' g Hle _ _ _ _ _ _ _ E). auto.
 Qed.
 
 (* ================================================================ attribute docstrings (builder.currentAttr) *)
@@ -1669,8 +1967,8 @@ Lemma string_after_def_ignored : forall clean sc flow inh outer nm ds a body d s
     walk_stmt clean (ExprStr d) sc flow inh outer s1 = s1.
 Proof. intros clean sc flow inh outer nm ds a body d s. cbn [walk_stmt]. destruct (f_prop _); reflexivity. Qed.
 
-Lemma string_after_class_ignored : forall clean sc flow inh outer nm bs body d s,
-    let s1 := walk_stmt clean (Class nm bs body) sc flow inh outer s in
+Lemma string_after_class_ignored : forall clean sc flow inh outer nm bs cds body d s,
+    let s1 := walk_stmt clean (Class nm bs cds body) sc flow inh outer s in
     walk_stmt clean (ExprStr d) sc flow inh outer s1 = s1.
 Proof. intros. reflexivity. Qed.
 
